@@ -22,7 +22,8 @@
             poll       OPoll: deadline = now + timeout                P1 cnt.load (all_done)      P2 ev_queue.pop
                        P3 to_wake.store(fresh Blocker)                P4 ev_queue.pop (re-check)   P4t to_wake.take
                        P5 Blocker::park: token set -> consumed, return; cancelled coroutine -> Cancel raised; else suspend
-                       P5w suspended; resumed by token / timeout / cancel, the token is cleared whatever the reason,
+                       P5w suspended; resumed by token / timeout / cancel (a cancel() takes a parked coroutine also when its cancel
+                           is disabled: owk; the park then returns Canceled, poll ignores it and loops), the token is cleared whatever the reason,
                            yield_back = check_cancel                  P6 deadline check (Instant::now() >= deadline)
             run_ev     Normal event: continue_bottom = run_coroutine(co): the arm runs INLINE on the owner's stack (PRun)
                        until it yields, blocks or ends, then poll returns Ok(ev)
@@ -106,6 +107,7 @@ Record st := mkst {
   ojres : aresult;
   fi : nat;
   ostash : qent;
+  owk : bool;
   now : Z;
   nexta : nat;
   nexte : nat;
@@ -123,60 +125,61 @@ Record st := mkst {
   rer : nat;
   rerp : option nat;
   oleft : bool }.
-Definition set_evq (s : st) (v : list qent) : st := {| evq := v; cnt := cnt s; towake := towake s; sel := sel s; total := total s; ispan := ispan s; pc := pc s; cbit := cbit s; inl := inl s; kern := kern s; ares := ares s; jst := jst s; aw := aw s; acur := acur s; kpc := kpc s; earm := earm s; kw := kw s; tok := tok s; nextb := nextb s; opc := opc s; oco := oco s; ocbit := ocbit s; odis := odis s; ounw := ounw s; ofin := ofin s; opay := opay s; oto := oto s; odl := odl s; opdl := opdl s; ocall := ocall s; oalld := oalld s; ob := ob s; ocur := ocur s; oev := oev s; ojres := ojres s; fi := fi s; ostash := ostash s; now := now s; nexta := nexta s; nexte := nexte s; tops := tops s; bots := bots s; botd := botd s; sent := sent s; byield := byield s; epush := epush s; epop := epop s; ernd := ernd s; dpush := dpush s; dpop := dpop s; olast := olast s; rer := rer s; rerp := rerp s; oleft := oleft s |}.
-Definition set_cnt (s : st) (v : Z) : st := {| evq := evq s; cnt := v; towake := towake s; sel := sel s; total := total s; ispan := ispan s; pc := pc s; cbit := cbit s; inl := inl s; kern := kern s; ares := ares s; jst := jst s; aw := aw s; acur := acur s; kpc := kpc s; earm := earm s; kw := kw s; tok := tok s; nextb := nextb s; opc := opc s; oco := oco s; ocbit := ocbit s; odis := odis s; ounw := ounw s; ofin := ofin s; opay := opay s; oto := oto s; odl := odl s; opdl := opdl s; ocall := ocall s; oalld := oalld s; ob := ob s; ocur := ocur s; oev := oev s; ojres := ojres s; fi := fi s; ostash := ostash s; now := now s; nexta := nexta s; nexte := nexte s; tops := tops s; bots := bots s; botd := botd s; sent := sent s; byield := byield s; epush := epush s; epop := epop s; ernd := ernd s; dpush := dpush s; dpop := dpop s; olast := olast s; rer := rer s; rerp := rerp s; oleft := oleft s |}.
-Definition set_towake (s : st) (v : option nat) : st := {| evq := evq s; cnt := cnt s; towake := v; sel := sel s; total := total s; ispan := ispan s; pc := pc s; cbit := cbit s; inl := inl s; kern := kern s; ares := ares s; jst := jst s; aw := aw s; acur := acur s; kpc := kpc s; earm := earm s; kw := kw s; tok := tok s; nextb := nextb s; opc := opc s; oco := oco s; ocbit := ocbit s; odis := odis s; ounw := ounw s; ofin := ofin s; opay := opay s; oto := oto s; odl := odl s; opdl := opdl s; ocall := ocall s; oalld := oalld s; ob := ob s; ocur := ocur s; oev := oev s; ojres := ojres s; fi := fi s; ostash := ostash s; now := now s; nexta := nexta s; nexte := nexte s; tops := tops s; bots := bots s; botd := botd s; sent := sent s; byield := byield s; epush := epush s; epop := epop s; ernd := ernd s; dpush := dpush s; dpop := dpop s; olast := olast s; rer := rer s; rerp := rerp s; oleft := oleft s |}.
-Definition set_sel (s : st) (v : nat -> bool) : st := {| evq := evq s; cnt := cnt s; towake := towake s; sel := v; total := total s; ispan := ispan s; pc := pc s; cbit := cbit s; inl := inl s; kern := kern s; ares := ares s; jst := jst s; aw := aw s; acur := acur s; kpc := kpc s; earm := earm s; kw := kw s; tok := tok s; nextb := nextb s; opc := opc s; oco := oco s; ocbit := ocbit s; odis := odis s; ounw := ounw s; ofin := ofin s; opay := opay s; oto := oto s; odl := odl s; opdl := opdl s; ocall := ocall s; oalld := oalld s; ob := ob s; ocur := ocur s; oev := oev s; ojres := ojres s; fi := fi s; ostash := ostash s; now := now s; nexta := nexta s; nexte := nexte s; tops := tops s; bots := bots s; botd := botd s; sent := sent s; byield := byield s; epush := epush s; epop := epop s; ernd := ernd s; dpush := dpush s; dpop := dpop s; olast := olast s; rer := rer s; rerp := rerp s; oleft := oleft s |}.
-Definition set_total (s : st) (v : nat) : st := {| evq := evq s; cnt := cnt s; towake := towake s; sel := sel s; total := v; ispan := ispan s; pc := pc s; cbit := cbit s; inl := inl s; kern := kern s; ares := ares s; jst := jst s; aw := aw s; acur := acur s; kpc := kpc s; earm := earm s; kw := kw s; tok := tok s; nextb := nextb s; opc := opc s; oco := oco s; ocbit := ocbit s; odis := odis s; ounw := ounw s; ofin := ofin s; opay := opay s; oto := oto s; odl := odl s; opdl := opdl s; ocall := ocall s; oalld := oalld s; ob := ob s; ocur := ocur s; oev := oev s; ojres := ojres s; fi := fi s; ostash := ostash s; now := now s; nexta := nexta s; nexte := nexte s; tops := tops s; bots := bots s; botd := botd s; sent := sent s; byield := byield s; epush := epush s; epop := epop s; ernd := ernd s; dpush := dpush s; dpop := dpop s; olast := olast s; rer := rer s; rerp := rerp s; oleft := oleft s |}.
-Definition set_ispan (s : st) (v : bool) : st := {| evq := evq s; cnt := cnt s; towake := towake s; sel := sel s; total := total s; ispan := v; pc := pc s; cbit := cbit s; inl := inl s; kern := kern s; ares := ares s; jst := jst s; aw := aw s; acur := acur s; kpc := kpc s; earm := earm s; kw := kw s; tok := tok s; nextb := nextb s; opc := opc s; oco := oco s; ocbit := ocbit s; odis := odis s; ounw := ounw s; ofin := ofin s; opay := opay s; oto := oto s; odl := odl s; opdl := opdl s; ocall := ocall s; oalld := oalld s; ob := ob s; ocur := ocur s; oev := oev s; ojres := ojres s; fi := fi s; ostash := ostash s; now := now s; nexta := nexta s; nexte := nexte s; tops := tops s; bots := bots s; botd := botd s; sent := sent s; byield := byield s; epush := epush s; epop := epop s; ernd := ernd s; dpush := dpush s; dpop := dpop s; olast := olast s; rer := rer s; rerp := rerp s; oleft := oleft s |}.
-Definition set_pc (s : st) (v : nat -> apc) : st := {| evq := evq s; cnt := cnt s; towake := towake s; sel := sel s; total := total s; ispan := ispan s; pc := v; cbit := cbit s; inl := inl s; kern := kern s; ares := ares s; jst := jst s; aw := aw s; acur := acur s; kpc := kpc s; earm := earm s; kw := kw s; tok := tok s; nextb := nextb s; opc := opc s; oco := oco s; ocbit := ocbit s; odis := odis s; ounw := ounw s; ofin := ofin s; opay := opay s; oto := oto s; odl := odl s; opdl := opdl s; ocall := ocall s; oalld := oalld s; ob := ob s; ocur := ocur s; oev := oev s; ojres := ojres s; fi := fi s; ostash := ostash s; now := now s; nexta := nexta s; nexte := nexte s; tops := tops s; bots := bots s; botd := botd s; sent := sent s; byield := byield s; epush := epush s; epop := epop s; ernd := ernd s; dpush := dpush s; dpop := dpop s; olast := olast s; rer := rer s; rerp := rerp s; oleft := oleft s |}.
-Definition set_cbit (s : st) (v : nat -> bool) : st := {| evq := evq s; cnt := cnt s; towake := towake s; sel := sel s; total := total s; ispan := ispan s; pc := pc s; cbit := v; inl := inl s; kern := kern s; ares := ares s; jst := jst s; aw := aw s; acur := acur s; kpc := kpc s; earm := earm s; kw := kw s; tok := tok s; nextb := nextb s; opc := opc s; oco := oco s; ocbit := ocbit s; odis := odis s; ounw := ounw s; ofin := ofin s; opay := opay s; oto := oto s; odl := odl s; opdl := opdl s; ocall := ocall s; oalld := oalld s; ob := ob s; ocur := ocur s; oev := oev s; ojres := ojres s; fi := fi s; ostash := ostash s; now := now s; nexta := nexta s; nexte := nexte s; tops := tops s; bots := bots s; botd := botd s; sent := sent s; byield := byield s; epush := epush s; epop := epop s; ernd := ernd s; dpush := dpush s; dpop := dpop s; olast := olast s; rer := rer s; rerp := rerp s; oleft := oleft s |}.
-Definition set_inl (s : st) (v : nat -> bool) : st := {| evq := evq s; cnt := cnt s; towake := towake s; sel := sel s; total := total s; ispan := ispan s; pc := pc s; cbit := cbit s; inl := v; kern := kern s; ares := ares s; jst := jst s; aw := aw s; acur := acur s; kpc := kpc s; earm := earm s; kw := kw s; tok := tok s; nextb := nextb s; opc := opc s; oco := oco s; ocbit := ocbit s; odis := odis s; ounw := ounw s; ofin := ofin s; opay := opay s; oto := oto s; odl := odl s; opdl := opdl s; ocall := ocall s; oalld := oalld s; ob := ob s; ocur := ocur s; oev := oev s; ojres := ojres s; fi := fi s; ostash := ostash s; now := now s; nexta := nexta s; nexte := nexte s; tops := tops s; bots := bots s; botd := botd s; sent := sent s; byield := byield s; epush := epush s; epop := epop s; ernd := ernd s; dpush := dpush s; dpop := dpop s; olast := olast s; rer := rer s; rerp := rerp s; oleft := oleft s |}.
-Definition set_kern (s : st) (v : nat -> nat) : st := {| evq := evq s; cnt := cnt s; towake := towake s; sel := sel s; total := total s; ispan := ispan s; pc := pc s; cbit := cbit s; inl := inl s; kern := v; ares := ares s; jst := jst s; aw := aw s; acur := acur s; kpc := kpc s; earm := earm s; kw := kw s; tok := tok s; nextb := nextb s; opc := opc s; oco := oco s; ocbit := ocbit s; odis := odis s; ounw := ounw s; ofin := ofin s; opay := opay s; oto := oto s; odl := odl s; opdl := opdl s; ocall := ocall s; oalld := oalld s; ob := ob s; ocur := ocur s; oev := oev s; ojres := ojres s; fi := fi s; ostash := ostash s; now := now s; nexta := nexta s; nexte := nexte s; tops := tops s; bots := bots s; botd := botd s; sent := sent s; byield := byield s; epush := epush s; epop := epop s; ernd := ernd s; dpush := dpush s; dpop := dpop s; olast := olast s; rer := rer s; rerp := rerp s; oleft := oleft s |}.
-Definition set_ares (s : st) (v : nat -> aresult) : st := {| evq := evq s; cnt := cnt s; towake := towake s; sel := sel s; total := total s; ispan := ispan s; pc := pc s; cbit := cbit s; inl := inl s; kern := kern s; ares := v; jst := jst s; aw := aw s; acur := acur s; kpc := kpc s; earm := earm s; kw := kw s; tok := tok s; nextb := nextb s; opc := opc s; oco := oco s; ocbit := ocbit s; odis := odis s; ounw := ounw s; ofin := ofin s; opay := opay s; oto := oto s; odl := odl s; opdl := opdl s; ocall := ocall s; oalld := oalld s; ob := ob s; ocur := ocur s; oev := oev s; ojres := ojres s; fi := fi s; ostash := ostash s; now := now s; nexta := nexta s; nexte := nexte s; tops := tops s; bots := bots s; botd := botd s; sent := sent s; byield := byield s; epush := epush s; epop := epop s; ernd := ernd s; dpush := dpush s; dpop := dpop s; olast := olast s; rer := rer s; rerp := rerp s; oleft := oleft s |}.
-Definition set_jst (s : st) (v : nat -> bool) : st := {| evq := evq s; cnt := cnt s; towake := towake s; sel := sel s; total := total s; ispan := ispan s; pc := pc s; cbit := cbit s; inl := inl s; kern := kern s; ares := ares s; jst := v; aw := aw s; acur := acur s; kpc := kpc s; earm := earm s; kw := kw s; tok := tok s; nextb := nextb s; opc := opc s; oco := oco s; ocbit := ocbit s; odis := odis s; ounw := ounw s; ofin := ofin s; opay := opay s; oto := oto s; odl := odl s; opdl := opdl s; ocall := ocall s; oalld := oalld s; ob := ob s; ocur := ocur s; oev := oev s; ojres := ojres s; fi := fi s; ostash := ostash s; now := now s; nexta := nexta s; nexte := nexte s; tops := tops s; bots := bots s; botd := botd s; sent := sent s; byield := byield s; epush := epush s; epop := epop s; ernd := ernd s; dpush := dpush s; dpop := dpop s; olast := olast s; rer := rer s; rerp := rerp s; oleft := oleft s |}.
-Definition set_aw (s : st) (v : nat -> nat) : st := {| evq := evq s; cnt := cnt s; towake := towake s; sel := sel s; total := total s; ispan := ispan s; pc := pc s; cbit := cbit s; inl := inl s; kern := kern s; ares := ares s; jst := jst s; aw := v; acur := acur s; kpc := kpc s; earm := earm s; kw := kw s; tok := tok s; nextb := nextb s; opc := opc s; oco := oco s; ocbit := ocbit s; odis := odis s; ounw := ounw s; ofin := ofin s; opay := opay s; oto := oto s; odl := odl s; opdl := opdl s; ocall := ocall s; oalld := oalld s; ob := ob s; ocur := ocur s; oev := oev s; ojres := ojres s; fi := fi s; ostash := ostash s; now := now s; nexta := nexta s; nexte := nexte s; tops := tops s; bots := bots s; botd := botd s; sent := sent s; byield := byield s; epush := epush s; epop := epop s; ernd := ernd s; dpush := dpush s; dpop := dpop s; olast := olast s; rer := rer s; rerp := rerp s; oleft := oleft s |}.
-Definition set_acur (s : st) (v : nat -> nat) : st := {| evq := evq s; cnt := cnt s; towake := towake s; sel := sel s; total := total s; ispan := ispan s; pc := pc s; cbit := cbit s; inl := inl s; kern := kern s; ares := ares s; jst := jst s; aw := aw s; acur := v; kpc := kpc s; earm := earm s; kw := kw s; tok := tok s; nextb := nextb s; opc := opc s; oco := oco s; ocbit := ocbit s; odis := odis s; ounw := ounw s; ofin := ofin s; opay := opay s; oto := oto s; odl := odl s; opdl := opdl s; ocall := ocall s; oalld := oalld s; ob := ob s; ocur := ocur s; oev := oev s; ojres := ojres s; fi := fi s; ostash := ostash s; now := now s; nexta := nexta s; nexte := nexte s; tops := tops s; bots := bots s; botd := botd s; sent := sent s; byield := byield s; epush := epush s; epop := epop s; ernd := ernd s; dpush := dpush s; dpop := dpop s; olast := olast s; rer := rer s; rerp := rerp s; oleft := oleft s |}.
-Definition set_kpc (s : st) (v : nat -> kpcT) : st := {| evq := evq s; cnt := cnt s; towake := towake s; sel := sel s; total := total s; ispan := ispan s; pc := pc s; cbit := cbit s; inl := inl s; kern := kern s; ares := ares s; jst := jst s; aw := aw s; acur := acur s; kpc := v; earm := earm s; kw := kw s; tok := tok s; nextb := nextb s; opc := opc s; oco := oco s; ocbit := ocbit s; odis := odis s; ounw := ounw s; ofin := ofin s; opay := opay s; oto := oto s; odl := odl s; opdl := opdl s; ocall := ocall s; oalld := oalld s; ob := ob s; ocur := ocur s; oev := oev s; ojres := ojres s; fi := fi s; ostash := ostash s; now := now s; nexta := nexta s; nexte := nexte s; tops := tops s; bots := bots s; botd := botd s; sent := sent s; byield := byield s; epush := epush s; epop := epop s; ernd := ernd s; dpush := dpush s; dpop := dpop s; olast := olast s; rer := rer s; rerp := rerp s; oleft := oleft s |}.
-Definition set_earm (s : st) (v : nat -> nat) : st := {| evq := evq s; cnt := cnt s; towake := towake s; sel := sel s; total := total s; ispan := ispan s; pc := pc s; cbit := cbit s; inl := inl s; kern := kern s; ares := ares s; jst := jst s; aw := aw s; acur := acur s; kpc := kpc s; earm := v; kw := kw s; tok := tok s; nextb := nextb s; opc := opc s; oco := oco s; ocbit := ocbit s; odis := odis s; ounw := ounw s; ofin := ofin s; opay := opay s; oto := oto s; odl := odl s; opdl := opdl s; ocall := ocall s; oalld := oalld s; ob := ob s; ocur := ocur s; oev := oev s; ojres := ojres s; fi := fi s; ostash := ostash s; now := now s; nexta := nexta s; nexte := nexte s; tops := tops s; bots := bots s; botd := botd s; sent := sent s; byield := byield s; epush := epush s; epop := epop s; ernd := ernd s; dpush := dpush s; dpop := dpop s; olast := olast s; rer := rer s; rerp := rerp s; oleft := oleft s |}.
-Definition set_kw (s : st) (v : nat -> nat) : st := {| evq := evq s; cnt := cnt s; towake := towake s; sel := sel s; total := total s; ispan := ispan s; pc := pc s; cbit := cbit s; inl := inl s; kern := kern s; ares := ares s; jst := jst s; aw := aw s; acur := acur s; kpc := kpc s; earm := earm s; kw := v; tok := tok s; nextb := nextb s; opc := opc s; oco := oco s; ocbit := ocbit s; odis := odis s; ounw := ounw s; ofin := ofin s; opay := opay s; oto := oto s; odl := odl s; opdl := opdl s; ocall := ocall s; oalld := oalld s; ob := ob s; ocur := ocur s; oev := oev s; ojres := ojres s; fi := fi s; ostash := ostash s; now := now s; nexta := nexta s; nexte := nexte s; tops := tops s; bots := bots s; botd := botd s; sent := sent s; byield := byield s; epush := epush s; epop := epop s; ernd := ernd s; dpush := dpush s; dpop := dpop s; olast := olast s; rer := rer s; rerp := rerp s; oleft := oleft s |}.
-Definition set_tok (s : st) (v : nat -> bool) : st := {| evq := evq s; cnt := cnt s; towake := towake s; sel := sel s; total := total s; ispan := ispan s; pc := pc s; cbit := cbit s; inl := inl s; kern := kern s; ares := ares s; jst := jst s; aw := aw s; acur := acur s; kpc := kpc s; earm := earm s; kw := kw s; tok := v; nextb := nextb s; opc := opc s; oco := oco s; ocbit := ocbit s; odis := odis s; ounw := ounw s; ofin := ofin s; opay := opay s; oto := oto s; odl := odl s; opdl := opdl s; ocall := ocall s; oalld := oalld s; ob := ob s; ocur := ocur s; oev := oev s; ojres := ojres s; fi := fi s; ostash := ostash s; now := now s; nexta := nexta s; nexte := nexte s; tops := tops s; bots := bots s; botd := botd s; sent := sent s; byield := byield s; epush := epush s; epop := epop s; ernd := ernd s; dpush := dpush s; dpop := dpop s; olast := olast s; rer := rer s; rerp := rerp s; oleft := oleft s |}.
-Definition set_nextb (s : st) (v : nat) : st := {| evq := evq s; cnt := cnt s; towake := towake s; sel := sel s; total := total s; ispan := ispan s; pc := pc s; cbit := cbit s; inl := inl s; kern := kern s; ares := ares s; jst := jst s; aw := aw s; acur := acur s; kpc := kpc s; earm := earm s; kw := kw s; tok := tok s; nextb := v; opc := opc s; oco := oco s; ocbit := ocbit s; odis := odis s; ounw := ounw s; ofin := ofin s; opay := opay s; oto := oto s; odl := odl s; opdl := opdl s; ocall := ocall s; oalld := oalld s; ob := ob s; ocur := ocur s; oev := oev s; ojres := ojres s; fi := fi s; ostash := ostash s; now := now s; nexta := nexta s; nexte := nexte s; tops := tops s; bots := bots s; botd := botd s; sent := sent s; byield := byield s; epush := epush s; epop := epop s; ernd := ernd s; dpush := dpush s; dpop := dpop s; olast := olast s; rer := rer s; rerp := rerp s; oleft := oleft s |}.
-Definition set_opc (s : st) (v : opcT) : st := {| evq := evq s; cnt := cnt s; towake := towake s; sel := sel s; total := total s; ispan := ispan s; pc := pc s; cbit := cbit s; inl := inl s; kern := kern s; ares := ares s; jst := jst s; aw := aw s; acur := acur s; kpc := kpc s; earm := earm s; kw := kw s; tok := tok s; nextb := nextb s; opc := v; oco := oco s; ocbit := ocbit s; odis := odis s; ounw := ounw s; ofin := ofin s; opay := opay s; oto := oto s; odl := odl s; opdl := opdl s; ocall := ocall s; oalld := oalld s; ob := ob s; ocur := ocur s; oev := oev s; ojres := ojres s; fi := fi s; ostash := ostash s; now := now s; nexta := nexta s; nexte := nexte s; tops := tops s; bots := bots s; botd := botd s; sent := sent s; byield := byield s; epush := epush s; epop := epop s; ernd := ernd s; dpush := dpush s; dpop := dpop s; olast := olast s; rer := rer s; rerp := rerp s; oleft := oleft s |}.
-Definition set_oco (s : st) (v : bool) : st := {| evq := evq s; cnt := cnt s; towake := towake s; sel := sel s; total := total s; ispan := ispan s; pc := pc s; cbit := cbit s; inl := inl s; kern := kern s; ares := ares s; jst := jst s; aw := aw s; acur := acur s; kpc := kpc s; earm := earm s; kw := kw s; tok := tok s; nextb := nextb s; opc := opc s; oco := v; ocbit := ocbit s; odis := odis s; ounw := ounw s; ofin := ofin s; opay := opay s; oto := oto s; odl := odl s; opdl := opdl s; ocall := ocall s; oalld := oalld s; ob := ob s; ocur := ocur s; oev := oev s; ojres := ojres s; fi := fi s; ostash := ostash s; now := now s; nexta := nexta s; nexte := nexte s; tops := tops s; bots := bots s; botd := botd s; sent := sent s; byield := byield s; epush := epush s; epop := epop s; ernd := ernd s; dpush := dpush s; dpop := dpop s; olast := olast s; rer := rer s; rerp := rerp s; oleft := oleft s |}.
-Definition set_ocbit (s : st) (v : bool) : st := {| evq := evq s; cnt := cnt s; towake := towake s; sel := sel s; total := total s; ispan := ispan s; pc := pc s; cbit := cbit s; inl := inl s; kern := kern s; ares := ares s; jst := jst s; aw := aw s; acur := acur s; kpc := kpc s; earm := earm s; kw := kw s; tok := tok s; nextb := nextb s; opc := opc s; oco := oco s; ocbit := v; odis := odis s; ounw := ounw s; ofin := ofin s; opay := opay s; oto := oto s; odl := odl s; opdl := opdl s; ocall := ocall s; oalld := oalld s; ob := ob s; ocur := ocur s; oev := oev s; ojres := ojres s; fi := fi s; ostash := ostash s; now := now s; nexta := nexta s; nexte := nexte s; tops := tops s; bots := bots s; botd := botd s; sent := sent s; byield := byield s; epush := epush s; epop := epop s; ernd := ernd s; dpush := dpush s; dpop := dpop s; olast := olast s; rer := rer s; rerp := rerp s; oleft := oleft s |}.
-Definition set_odis (s : st) (v : nat) : st := {| evq := evq s; cnt := cnt s; towake := towake s; sel := sel s; total := total s; ispan := ispan s; pc := pc s; cbit := cbit s; inl := inl s; kern := kern s; ares := ares s; jst := jst s; aw := aw s; acur := acur s; kpc := kpc s; earm := earm s; kw := kw s; tok := tok s; nextb := nextb s; opc := opc s; oco := oco s; ocbit := ocbit s; odis := v; ounw := ounw s; ofin := ofin s; opay := opay s; oto := oto s; odl := odl s; opdl := opdl s; ocall := ocall s; oalld := oalld s; ob := ob s; ocur := ocur s; oev := oev s; ojres := ojres s; fi := fi s; ostash := ostash s; now := now s; nexta := nexta s; nexte := nexte s; tops := tops s; bots := bots s; botd := botd s; sent := sent s; byield := byield s; epush := epush s; epop := epop s; ernd := ernd s; dpush := dpush s; dpop := dpop s; olast := olast s; rer := rer s; rerp := rerp s; oleft := oleft s |}.
-Definition set_ounw (s : st) (v : unw) : st := {| evq := evq s; cnt := cnt s; towake := towake s; sel := sel s; total := total s; ispan := ispan s; pc := pc s; cbit := cbit s; inl := inl s; kern := kern s; ares := ares s; jst := jst s; aw := aw s; acur := acur s; kpc := kpc s; earm := earm s; kw := kw s; tok := tok s; nextb := nextb s; opc := opc s; oco := oco s; ocbit := ocbit s; odis := odis s; ounw := v; ofin := ofin s; opay := opay s; oto := oto s; odl := odl s; opdl := opdl s; ocall := ocall s; oalld := oalld s; ob := ob s; ocur := ocur s; oev := oev s; ojres := ojres s; fi := fi s; ostash := ostash s; now := now s; nexta := nexta s; nexte := nexte s; tops := tops s; bots := bots s; botd := botd s; sent := sent s; byield := byield s; epush := epush s; epop := epop s; ernd := ernd s; dpush := dpush s; dpop := dpop s; olast := olast s; rer := rer s; rerp := rerp s; oleft := oleft s |}.
-Definition set_ofin (s : st) (v : nat) : st := {| evq := evq s; cnt := cnt s; towake := towake s; sel := sel s; total := total s; ispan := ispan s; pc := pc s; cbit := cbit s; inl := inl s; kern := kern s; ares := ares s; jst := jst s; aw := aw s; acur := acur s; kpc := kpc s; earm := earm s; kw := kw s; tok := tok s; nextb := nextb s; opc := opc s; oco := oco s; ocbit := ocbit s; odis := odis s; ounw := ounw s; ofin := v; opay := opay s; oto := oto s; odl := odl s; opdl := opdl s; ocall := ocall s; oalld := oalld s; ob := ob s; ocur := ocur s; oev := oev s; ojres := ojres s; fi := fi s; ostash := ostash s; now := now s; nexta := nexta s; nexte := nexte s; tops := tops s; bots := bots s; botd := botd s; sent := sent s; byield := byield s; epush := epush s; epop := epop s; ernd := ernd s; dpush := dpush s; dpop := dpop s; olast := olast s; rer := rer s; rerp := rerp s; oleft := oleft s |}.
-Definition set_opay (s : st) (v : unw) : st := {| evq := evq s; cnt := cnt s; towake := towake s; sel := sel s; total := total s; ispan := ispan s; pc := pc s; cbit := cbit s; inl := inl s; kern := kern s; ares := ares s; jst := jst s; aw := aw s; acur := acur s; kpc := kpc s; earm := earm s; kw := kw s; tok := tok s; nextb := nextb s; opc := opc s; oco := oco s; ocbit := ocbit s; odis := odis s; ounw := ounw s; ofin := ofin s; opay := v; oto := oto s; odl := odl s; opdl := opdl s; ocall := ocall s; oalld := oalld s; ob := ob s; ocur := ocur s; oev := oev s; ojres := ojres s; fi := fi s; ostash := ostash s; now := now s; nexta := nexta s; nexte := nexte s; tops := tops s; bots := bots s; botd := botd s; sent := sent s; byield := byield s; epush := epush s; epop := epop s; ernd := ernd s; dpush := dpush s; dpop := dpop s; olast := olast s; rer := rer s; rerp := rerp s; oleft := oleft s |}.
-Definition set_oto (s : st) (v : option Z) : st := {| evq := evq s; cnt := cnt s; towake := towake s; sel := sel s; total := total s; ispan := ispan s; pc := pc s; cbit := cbit s; inl := inl s; kern := kern s; ares := ares s; jst := jst s; aw := aw s; acur := acur s; kpc := kpc s; earm := earm s; kw := kw s; tok := tok s; nextb := nextb s; opc := opc s; oco := oco s; ocbit := ocbit s; odis := odis s; ounw := ounw s; ofin := ofin s; opay := opay s; oto := v; odl := odl s; opdl := opdl s; ocall := ocall s; oalld := oalld s; ob := ob s; ocur := ocur s; oev := oev s; ojres := ojres s; fi := fi s; ostash := ostash s; now := now s; nexta := nexta s; nexte := nexte s; tops := tops s; bots := bots s; botd := botd s; sent := sent s; byield := byield s; epush := epush s; epop := epop s; ernd := ernd s; dpush := dpush s; dpop := dpop s; olast := olast s; rer := rer s; rerp := rerp s; oleft := oleft s |}.
-Definition set_odl (s : st) (v : option Z) : st := {| evq := evq s; cnt := cnt s; towake := towake s; sel := sel s; total := total s; ispan := ispan s; pc := pc s; cbit := cbit s; inl := inl s; kern := kern s; ares := ares s; jst := jst s; aw := aw s; acur := acur s; kpc := kpc s; earm := earm s; kw := kw s; tok := tok s; nextb := nextb s; opc := opc s; oco := oco s; ocbit := ocbit s; odis := odis s; ounw := ounw s; ofin := ofin s; opay := opay s; oto := oto s; odl := v; opdl := opdl s; ocall := ocall s; oalld := oalld s; ob := ob s; ocur := ocur s; oev := oev s; ojres := ojres s; fi := fi s; ostash := ostash s; now := now s; nexta := nexta s; nexte := nexte s; tops := tops s; bots := bots s; botd := botd s; sent := sent s; byield := byield s; epush := epush s; epop := epop s; ernd := ernd s; dpush := dpush s; dpop := dpop s; olast := olast s; rer := rer s; rerp := rerp s; oleft := oleft s |}.
-Definition set_opdl (s : st) (v : option Z) : st := {| evq := evq s; cnt := cnt s; towake := towake s; sel := sel s; total := total s; ispan := ispan s; pc := pc s; cbit := cbit s; inl := inl s; kern := kern s; ares := ares s; jst := jst s; aw := aw s; acur := acur s; kpc := kpc s; earm := earm s; kw := kw s; tok := tok s; nextb := nextb s; opc := opc s; oco := oco s; ocbit := ocbit s; odis := odis s; ounw := ounw s; ofin := ofin s; opay := opay s; oto := oto s; odl := odl s; opdl := v; ocall := ocall s; oalld := oalld s; ob := ob s; ocur := ocur s; oev := oev s; ojres := ojres s; fi := fi s; ostash := ostash s; now := now s; nexta := nexta s; nexte := nexte s; tops := tops s; bots := bots s; botd := botd s; sent := sent s; byield := byield s; epush := epush s; epop := epop s; ernd := ernd s; dpush := dpush s; dpop := dpop s; olast := olast s; rer := rer s; rerp := rerp s; oleft := oleft s |}.
-Definition set_ocall (s : st) (v : Z) : st := {| evq := evq s; cnt := cnt s; towake := towake s; sel := sel s; total := total s; ispan := ispan s; pc := pc s; cbit := cbit s; inl := inl s; kern := kern s; ares := ares s; jst := jst s; aw := aw s; acur := acur s; kpc := kpc s; earm := earm s; kw := kw s; tok := tok s; nextb := nextb s; opc := opc s; oco := oco s; ocbit := ocbit s; odis := odis s; ounw := ounw s; ofin := ofin s; opay := opay s; oto := oto s; odl := odl s; opdl := opdl s; ocall := v; oalld := oalld s; ob := ob s; ocur := ocur s; oev := oev s; ojres := ojres s; fi := fi s; ostash := ostash s; now := now s; nexta := nexta s; nexte := nexte s; tops := tops s; bots := bots s; botd := botd s; sent := sent s; byield := byield s; epush := epush s; epop := epop s; ernd := ernd s; dpush := dpush s; dpop := dpop s; olast := olast s; rer := rer s; rerp := rerp s; oleft := oleft s |}.
-Definition set_oalld (s : st) (v : bool) : st := {| evq := evq s; cnt := cnt s; towake := towake s; sel := sel s; total := total s; ispan := ispan s; pc := pc s; cbit := cbit s; inl := inl s; kern := kern s; ares := ares s; jst := jst s; aw := aw s; acur := acur s; kpc := kpc s; earm := earm s; kw := kw s; tok := tok s; nextb := nextb s; opc := opc s; oco := oco s; ocbit := ocbit s; odis := odis s; ounw := ounw s; ofin := ofin s; opay := opay s; oto := oto s; odl := odl s; opdl := opdl s; ocall := ocall s; oalld := v; ob := ob s; ocur := ocur s; oev := oev s; ojres := ojres s; fi := fi s; ostash := ostash s; now := now s; nexta := nexta s; nexte := nexte s; tops := tops s; bots := bots s; botd := botd s; sent := sent s; byield := byield s; epush := epush s; epop := epop s; ernd := ernd s; dpush := dpush s; dpop := dpop s; olast := olast s; rer := rer s; rerp := rerp s; oleft := oleft s |}.
-Definition set_ob (s : st) (v : nat) : st := {| evq := evq s; cnt := cnt s; towake := towake s; sel := sel s; total := total s; ispan := ispan s; pc := pc s; cbit := cbit s; inl := inl s; kern := kern s; ares := ares s; jst := jst s; aw := aw s; acur := acur s; kpc := kpc s; earm := earm s; kw := kw s; tok := tok s; nextb := nextb s; opc := opc s; oco := oco s; ocbit := ocbit s; odis := odis s; ounw := ounw s; ofin := ofin s; opay := opay s; oto := oto s; odl := odl s; opdl := opdl s; ocall := ocall s; oalld := oalld s; ob := v; ocur := ocur s; oev := oev s; ojres := ojres s; fi := fi s; ostash := ostash s; now := now s; nexta := nexta s; nexte := nexte s; tops := tops s; bots := bots s; botd := botd s; sent := sent s; byield := byield s; epush := epush s; epop := epop s; ernd := ernd s; dpush := dpush s; dpop := dpop s; olast := olast s; rer := rer s; rerp := rerp s; oleft := oleft s |}.
-Definition set_ocur (s : st) (v : nat) : st := {| evq := evq s; cnt := cnt s; towake := towake s; sel := sel s; total := total s; ispan := ispan s; pc := pc s; cbit := cbit s; inl := inl s; kern := kern s; ares := ares s; jst := jst s; aw := aw s; acur := acur s; kpc := kpc s; earm := earm s; kw := kw s; tok := tok s; nextb := nextb s; opc := opc s; oco := oco s; ocbit := ocbit s; odis := odis s; ounw := ounw s; ofin := ofin s; opay := opay s; oto := oto s; odl := odl s; opdl := opdl s; ocall := ocall s; oalld := oalld s; ob := ob s; ocur := v; oev := oev s; ojres := ojres s; fi := fi s; ostash := ostash s; now := now s; nexta := nexta s; nexte := nexte s; tops := tops s; bots := bots s; botd := botd s; sent := sent s; byield := byield s; epush := epush s; epop := epop s; ernd := ernd s; dpush := dpush s; dpop := dpop s; olast := olast s; rer := rer s; rerp := rerp s; oleft := oleft s |}.
-Definition set_oev (s : st) (v : nat) : st := {| evq := evq s; cnt := cnt s; towake := towake s; sel := sel s; total := total s; ispan := ispan s; pc := pc s; cbit := cbit s; inl := inl s; kern := kern s; ares := ares s; jst := jst s; aw := aw s; acur := acur s; kpc := kpc s; earm := earm s; kw := kw s; tok := tok s; nextb := nextb s; opc := opc s; oco := oco s; ocbit := ocbit s; odis := odis s; ounw := ounw s; ofin := ofin s; opay := opay s; oto := oto s; odl := odl s; opdl := opdl s; ocall := ocall s; oalld := oalld s; ob := ob s; ocur := ocur s; oev := v; ojres := ojres s; fi := fi s; ostash := ostash s; now := now s; nexta := nexta s; nexte := nexte s; tops := tops s; bots := bots s; botd := botd s; sent := sent s; byield := byield s; epush := epush s; epop := epop s; ernd := ernd s; dpush := dpush s; dpop := dpop s; olast := olast s; rer := rer s; rerp := rerp s; oleft := oleft s |}.
-Definition set_ojres (s : st) (v : aresult) : st := {| evq := evq s; cnt := cnt s; towake := towake s; sel := sel s; total := total s; ispan := ispan s; pc := pc s; cbit := cbit s; inl := inl s; kern := kern s; ares := ares s; jst := jst s; aw := aw s; acur := acur s; kpc := kpc s; earm := earm s; kw := kw s; tok := tok s; nextb := nextb s; opc := opc s; oco := oco s; ocbit := ocbit s; odis := odis s; ounw := ounw s; ofin := ofin s; opay := opay s; oto := oto s; odl := odl s; opdl := opdl s; ocall := ocall s; oalld := oalld s; ob := ob s; ocur := ocur s; oev := oev s; ojres := v; fi := fi s; ostash := ostash s; now := now s; nexta := nexta s; nexte := nexte s; tops := tops s; bots := bots s; botd := botd s; sent := sent s; byield := byield s; epush := epush s; epop := epop s; ernd := ernd s; dpush := dpush s; dpop := dpop s; olast := olast s; rer := rer s; rerp := rerp s; oleft := oleft s |}.
-Definition set_fi (s : st) (v : nat) : st := {| evq := evq s; cnt := cnt s; towake := towake s; sel := sel s; total := total s; ispan := ispan s; pc := pc s; cbit := cbit s; inl := inl s; kern := kern s; ares := ares s; jst := jst s; aw := aw s; acur := acur s; kpc := kpc s; earm := earm s; kw := kw s; tok := tok s; nextb := nextb s; opc := opc s; oco := oco s; ocbit := ocbit s; odis := odis s; ounw := ounw s; ofin := ofin s; opay := opay s; oto := oto s; odl := odl s; opdl := opdl s; ocall := ocall s; oalld := oalld s; ob := ob s; ocur := ocur s; oev := oev s; ojres := ojres s; fi := v; ostash := ostash s; now := now s; nexta := nexta s; nexte := nexte s; tops := tops s; bots := bots s; botd := botd s; sent := sent s; byield := byield s; epush := epush s; epop := epop s; ernd := ernd s; dpush := dpush s; dpop := dpop s; olast := olast s; rer := rer s; rerp := rerp s; oleft := oleft s |}.
-Definition set_ostash (s : st) (v : qent) : st := {| evq := evq s; cnt := cnt s; towake := towake s; sel := sel s; total := total s; ispan := ispan s; pc := pc s; cbit := cbit s; inl := inl s; kern := kern s; ares := ares s; jst := jst s; aw := aw s; acur := acur s; kpc := kpc s; earm := earm s; kw := kw s; tok := tok s; nextb := nextb s; opc := opc s; oco := oco s; ocbit := ocbit s; odis := odis s; ounw := ounw s; ofin := ofin s; opay := opay s; oto := oto s; odl := odl s; opdl := opdl s; ocall := ocall s; oalld := oalld s; ob := ob s; ocur := ocur s; oev := oev s; ojres := ojres s; fi := fi s; ostash := v; now := now s; nexta := nexta s; nexte := nexte s; tops := tops s; bots := bots s; botd := botd s; sent := sent s; byield := byield s; epush := epush s; epop := epop s; ernd := ernd s; dpush := dpush s; dpop := dpop s; olast := olast s; rer := rer s; rerp := rerp s; oleft := oleft s |}.
-Definition set_now (s : st) (v : Z) : st := {| evq := evq s; cnt := cnt s; towake := towake s; sel := sel s; total := total s; ispan := ispan s; pc := pc s; cbit := cbit s; inl := inl s; kern := kern s; ares := ares s; jst := jst s; aw := aw s; acur := acur s; kpc := kpc s; earm := earm s; kw := kw s; tok := tok s; nextb := nextb s; opc := opc s; oco := oco s; ocbit := ocbit s; odis := odis s; ounw := ounw s; ofin := ofin s; opay := opay s; oto := oto s; odl := odl s; opdl := opdl s; ocall := ocall s; oalld := oalld s; ob := ob s; ocur := ocur s; oev := oev s; ojres := ojres s; fi := fi s; ostash := ostash s; now := v; nexta := nexta s; nexte := nexte s; tops := tops s; bots := bots s; botd := botd s; sent := sent s; byield := byield s; epush := epush s; epop := epop s; ernd := ernd s; dpush := dpush s; dpop := dpop s; olast := olast s; rer := rer s; rerp := rerp s; oleft := oleft s |}.
-Definition set_nexta (s : st) (v : nat) : st := {| evq := evq s; cnt := cnt s; towake := towake s; sel := sel s; total := total s; ispan := ispan s; pc := pc s; cbit := cbit s; inl := inl s; kern := kern s; ares := ares s; jst := jst s; aw := aw s; acur := acur s; kpc := kpc s; earm := earm s; kw := kw s; tok := tok s; nextb := nextb s; opc := opc s; oco := oco s; ocbit := ocbit s; odis := odis s; ounw := ounw s; ofin := ofin s; opay := opay s; oto := oto s; odl := odl s; opdl := opdl s; ocall := ocall s; oalld := oalld s; ob := ob s; ocur := ocur s; oev := oev s; ojres := ojres s; fi := fi s; ostash := ostash s; now := now s; nexta := v; nexte := nexte s; tops := tops s; bots := bots s; botd := botd s; sent := sent s; byield := byield s; epush := epush s; epop := epop s; ernd := ernd s; dpush := dpush s; dpop := dpop s; olast := olast s; rer := rer s; rerp := rerp s; oleft := oleft s |}.
-Definition set_nexte (s : st) (v : nat) : st := {| evq := evq s; cnt := cnt s; towake := towake s; sel := sel s; total := total s; ispan := ispan s; pc := pc s; cbit := cbit s; inl := inl s; kern := kern s; ares := ares s; jst := jst s; aw := aw s; acur := acur s; kpc := kpc s; earm := earm s; kw := kw s; tok := tok s; nextb := nextb s; opc := opc s; oco := oco s; ocbit := ocbit s; odis := odis s; ounw := ounw s; ofin := ofin s; opay := opay s; oto := oto s; odl := odl s; opdl := opdl s; ocall := ocall s; oalld := oalld s; ob := ob s; ocur := ocur s; oev := oev s; ojres := ojres s; fi := fi s; ostash := ostash s; now := now s; nexta := nexta s; nexte := v; tops := tops s; bots := bots s; botd := botd s; sent := sent s; byield := byield s; epush := epush s; epop := epop s; ernd := ernd s; dpush := dpush s; dpop := dpop s; olast := olast s; rer := rer s; rerp := rerp s; oleft := oleft s |}.
-Definition set_tops (s : st) (v : nat -> nat) : st := {| evq := evq s; cnt := cnt s; towake := towake s; sel := sel s; total := total s; ispan := ispan s; pc := pc s; cbit := cbit s; inl := inl s; kern := kern s; ares := ares s; jst := jst s; aw := aw s; acur := acur s; kpc := kpc s; earm := earm s; kw := kw s; tok := tok s; nextb := nextb s; opc := opc s; oco := oco s; ocbit := ocbit s; odis := odis s; ounw := ounw s; ofin := ofin s; opay := opay s; oto := oto s; odl := odl s; opdl := opdl s; ocall := ocall s; oalld := oalld s; ob := ob s; ocur := ocur s; oev := oev s; ojres := ojres s; fi := fi s; ostash := ostash s; now := now s; nexta := nexta s; nexte := nexte s; tops := v; bots := bots s; botd := botd s; sent := sent s; byield := byield s; epush := epush s; epop := epop s; ernd := ernd s; dpush := dpush s; dpop := dpop s; olast := olast s; rer := rer s; rerp := rerp s; oleft := oleft s |}.
-Definition set_bots (s : st) (v : nat -> nat) : st := {| evq := evq s; cnt := cnt s; towake := towake s; sel := sel s; total := total s; ispan := ispan s; pc := pc s; cbit := cbit s; inl := inl s; kern := kern s; ares := ares s; jst := jst s; aw := aw s; acur := acur s; kpc := kpc s; earm := earm s; kw := kw s; tok := tok s; nextb := nextb s; opc := opc s; oco := oco s; ocbit := ocbit s; odis := odis s; ounw := ounw s; ofin := ofin s; opay := opay s; oto := oto s; odl := odl s; opdl := opdl s; ocall := ocall s; oalld := oalld s; ob := ob s; ocur := ocur s; oev := oev s; ojres := ojres s; fi := fi s; ostash := ostash s; now := now s; nexta := nexta s; nexte := nexte s; tops := tops s; bots := v; botd := botd s; sent := sent s; byield := byield s; epush := epush s; epop := epop s; ernd := ernd s; dpush := dpush s; dpop := dpop s; olast := olast s; rer := rer s; rerp := rerp s; oleft := oleft s |}.
-Definition set_botd (s : st) (v : nat -> nat) : st := {| evq := evq s; cnt := cnt s; towake := towake s; sel := sel s; total := total s; ispan := ispan s; pc := pc s; cbit := cbit s; inl := inl s; kern := kern s; ares := ares s; jst := jst s; aw := aw s; acur := acur s; kpc := kpc s; earm := earm s; kw := kw s; tok := tok s; nextb := nextb s; opc := opc s; oco := oco s; ocbit := ocbit s; odis := odis s; ounw := ounw s; ofin := ofin s; opay := opay s; oto := oto s; odl := odl s; opdl := opdl s; ocall := ocall s; oalld := oalld s; ob := ob s; ocur := ocur s; oev := oev s; ojres := ojres s; fi := fi s; ostash := ostash s; now := now s; nexta := nexta s; nexte := nexte s; tops := tops s; bots := bots s; botd := v; sent := sent s; byield := byield s; epush := epush s; epop := epop s; ernd := ernd s; dpush := dpush s; dpop := dpop s; olast := olast s; rer := rer s; rerp := rerp s; oleft := oleft s |}.
-Definition set_sent (s : st) (v : nat -> nat) : st := {| evq := evq s; cnt := cnt s; towake := towake s; sel := sel s; total := total s; ispan := ispan s; pc := pc s; cbit := cbit s; inl := inl s; kern := kern s; ares := ares s; jst := jst s; aw := aw s; acur := acur s; kpc := kpc s; earm := earm s; kw := kw s; tok := tok s; nextb := nextb s; opc := opc s; oco := oco s; ocbit := ocbit s; odis := odis s; ounw := ounw s; ofin := ofin s; opay := opay s; oto := oto s; odl := odl s; opdl := opdl s; ocall := ocall s; oalld := oalld s; ob := ob s; ocur := ocur s; oev := oev s; ojres := ojres s; fi := fi s; ostash := ostash s; now := now s; nexta := nexta s; nexte := nexte s; tops := tops s; bots := bots s; botd := botd s; sent := v; byield := byield s; epush := epush s; epop := epop s; ernd := ernd s; dpush := dpush s; dpop := dpop s; olast := olast s; rer := rer s; rerp := rerp s; oleft := oleft s |}.
-Definition set_byield (s : st) (v : nat -> bool) : st := {| evq := evq s; cnt := cnt s; towake := towake s; sel := sel s; total := total s; ispan := ispan s; pc := pc s; cbit := cbit s; inl := inl s; kern := kern s; ares := ares s; jst := jst s; aw := aw s; acur := acur s; kpc := kpc s; earm := earm s; kw := kw s; tok := tok s; nextb := nextb s; opc := opc s; oco := oco s; ocbit := ocbit s; odis := odis s; ounw := ounw s; ofin := ofin s; opay := opay s; oto := oto s; odl := odl s; opdl := opdl s; ocall := ocall s; oalld := oalld s; ob := ob s; ocur := ocur s; oev := oev s; ojres := ojres s; fi := fi s; ostash := ostash s; now := now s; nexta := nexta s; nexte := nexte s; tops := tops s; bots := bots s; botd := botd s; sent := sent s; byield := v; epush := epush s; epop := epop s; ernd := ernd s; dpush := dpush s; dpop := dpop s; olast := olast s; rer := rer s; rerp := rerp s; oleft := oleft s |}.
-Definition set_epush (s : st) (v : nat -> nat) : st := {| evq := evq s; cnt := cnt s; towake := towake s; sel := sel s; total := total s; ispan := ispan s; pc := pc s; cbit := cbit s; inl := inl s; kern := kern s; ares := ares s; jst := jst s; aw := aw s; acur := acur s; kpc := kpc s; earm := earm s; kw := kw s; tok := tok s; nextb := nextb s; opc := opc s; oco := oco s; ocbit := ocbit s; odis := odis s; ounw := ounw s; ofin := ofin s; opay := opay s; oto := oto s; odl := odl s; opdl := opdl s; ocall := ocall s; oalld := oalld s; ob := ob s; ocur := ocur s; oev := oev s; ojres := ojres s; fi := fi s; ostash := ostash s; now := now s; nexta := nexta s; nexte := nexte s; tops := tops s; bots := bots s; botd := botd s; sent := sent s; byield := byield s; epush := v; epop := epop s; ernd := ernd s; dpush := dpush s; dpop := dpop s; olast := olast s; rer := rer s; rerp := rerp s; oleft := oleft s |}.
-Definition set_epop (s : st) (v : nat -> nat) : st := {| evq := evq s; cnt := cnt s; towake := towake s; sel := sel s; total := total s; ispan := ispan s; pc := pc s; cbit := cbit s; inl := inl s; kern := kern s; ares := ares s; jst := jst s; aw := aw s; acur := acur s; kpc := kpc s; earm := earm s; kw := kw s; tok := tok s; nextb := nextb s; opc := opc s; oco := oco s; ocbit := ocbit s; odis := odis s; ounw := ounw s; ofin := ofin s; opay := opay s; oto := oto s; odl := odl s; opdl := opdl s; ocall := ocall s; oalld := oalld s; ob := ob s; ocur := ocur s; oev := oev s; ojres := ojres s; fi := fi s; ostash := ostash s; now := now s; nexta := nexta s; nexte := nexte s; tops := tops s; bots := bots s; botd := botd s; sent := sent s; byield := byield s; epush := epush s; epop := v; ernd := ernd s; dpush := dpush s; dpop := dpop s; olast := olast s; rer := rer s; rerp := rerp s; oleft := oleft s |}.
-Definition set_ernd (s : st) (v : nat -> nat) : st := {| evq := evq s; cnt := cnt s; towake := towake s; sel := sel s; total := total s; ispan := ispan s; pc := pc s; cbit := cbit s; inl := inl s; kern := kern s; ares := ares s; jst := jst s; aw := aw s; acur := acur s; kpc := kpc s; earm := earm s; kw := kw s; tok := tok s; nextb := nextb s; opc := opc s; oco := oco s; ocbit := ocbit s; odis := odis s; ounw := ounw s; ofin := ofin s; opay := opay s; oto := oto s; odl := odl s; opdl := opdl s; ocall := ocall s; oalld := oalld s; ob := ob s; ocur := ocur s; oev := oev s; ojres := ojres s; fi := fi s; ostash := ostash s; now := now s; nexta := nexta s; nexte := nexte s; tops := tops s; bots := bots s; botd := botd s; sent := sent s; byield := byield s; epush := epush s; epop := epop s; ernd := v; dpush := dpush s; dpop := dpop s; olast := olast s; rer := rer s; rerp := rerp s; oleft := oleft s |}.
-Definition set_dpush (s : st) (v : nat -> nat) : st := {| evq := evq s; cnt := cnt s; towake := towake s; sel := sel s; total := total s; ispan := ispan s; pc := pc s; cbit := cbit s; inl := inl s; kern := kern s; ares := ares s; jst := jst s; aw := aw s; acur := acur s; kpc := kpc s; earm := earm s; kw := kw s; tok := tok s; nextb := nextb s; opc := opc s; oco := oco s; ocbit := ocbit s; odis := odis s; ounw := ounw s; ofin := ofin s; opay := opay s; oto := oto s; odl := odl s; opdl := opdl s; ocall := ocall s; oalld := oalld s; ob := ob s; ocur := ocur s; oev := oev s; ojres := ojres s; fi := fi s; ostash := ostash s; now := now s; nexta := nexta s; nexte := nexte s; tops := tops s; bots := bots s; botd := botd s; sent := sent s; byield := byield s; epush := epush s; epop := epop s; ernd := ernd s; dpush := v; dpop := dpop s; olast := olast s; rer := rer s; rerp := rerp s; oleft := oleft s |}.
-Definition set_dpop (s : st) (v : nat -> nat) : st := {| evq := evq s; cnt := cnt s; towake := towake s; sel := sel s; total := total s; ispan := ispan s; pc := pc s; cbit := cbit s; inl := inl s; kern := kern s; ares := ares s; jst := jst s; aw := aw s; acur := acur s; kpc := kpc s; earm := earm s; kw := kw s; tok := tok s; nextb := nextb s; opc := opc s; oco := oco s; ocbit := ocbit s; odis := odis s; ounw := ounw s; ofin := ofin s; opay := opay s; oto := oto s; odl := odl s; opdl := opdl s; ocall := ocall s; oalld := oalld s; ob := ob s; ocur := ocur s; oev := oev s; ojres := ojres s; fi := fi s; ostash := ostash s; now := now s; nexta := nexta s; nexte := nexte s; tops := tops s; bots := bots s; botd := botd s; sent := sent s; byield := byield s; epush := epush s; epop := epop s; ernd := ernd s; dpush := dpush s; dpop := v; olast := olast s; rer := rer s; rerp := rerp s; oleft := oleft s |}.
-Definition set_olast (s : st) (v : lastret) : st := {| evq := evq s; cnt := cnt s; towake := towake s; sel := sel s; total := total s; ispan := ispan s; pc := pc s; cbit := cbit s; inl := inl s; kern := kern s; ares := ares s; jst := jst s; aw := aw s; acur := acur s; kpc := kpc s; earm := earm s; kw := kw s; tok := tok s; nextb := nextb s; opc := opc s; oco := oco s; ocbit := ocbit s; odis := odis s; ounw := ounw s; ofin := ofin s; opay := opay s; oto := oto s; odl := odl s; opdl := opdl s; ocall := ocall s; oalld := oalld s; ob := ob s; ocur := ocur s; oev := oev s; ojres := ojres s; fi := fi s; ostash := ostash s; now := now s; nexta := nexta s; nexte := nexte s; tops := tops s; bots := bots s; botd := botd s; sent := sent s; byield := byield s; epush := epush s; epop := epop s; ernd := ernd s; dpush := dpush s; dpop := dpop s; olast := v; rer := rer s; rerp := rerp s; oleft := oleft s |}.
-Definition set_rer (s : st) (v : nat) : st := {| evq := evq s; cnt := cnt s; towake := towake s; sel := sel s; total := total s; ispan := ispan s; pc := pc s; cbit := cbit s; inl := inl s; kern := kern s; ares := ares s; jst := jst s; aw := aw s; acur := acur s; kpc := kpc s; earm := earm s; kw := kw s; tok := tok s; nextb := nextb s; opc := opc s; oco := oco s; ocbit := ocbit s; odis := odis s; ounw := ounw s; ofin := ofin s; opay := opay s; oto := oto s; odl := odl s; opdl := opdl s; ocall := ocall s; oalld := oalld s; ob := ob s; ocur := ocur s; oev := oev s; ojres := ojres s; fi := fi s; ostash := ostash s; now := now s; nexta := nexta s; nexte := nexte s; tops := tops s; bots := bots s; botd := botd s; sent := sent s; byield := byield s; epush := epush s; epop := epop s; ernd := ernd s; dpush := dpush s; dpop := dpop s; olast := olast s; rer := v; rerp := rerp s; oleft := oleft s |}.
-Definition set_rerp (s : st) (v : option nat) : st := {| evq := evq s; cnt := cnt s; towake := towake s; sel := sel s; total := total s; ispan := ispan s; pc := pc s; cbit := cbit s; inl := inl s; kern := kern s; ares := ares s; jst := jst s; aw := aw s; acur := acur s; kpc := kpc s; earm := earm s; kw := kw s; tok := tok s; nextb := nextb s; opc := opc s; oco := oco s; ocbit := ocbit s; odis := odis s; ounw := ounw s; ofin := ofin s; opay := opay s; oto := oto s; odl := odl s; opdl := opdl s; ocall := ocall s; oalld := oalld s; ob := ob s; ocur := ocur s; oev := oev s; ojres := ojres s; fi := fi s; ostash := ostash s; now := now s; nexta := nexta s; nexte := nexte s; tops := tops s; bots := bots s; botd := botd s; sent := sent s; byield := byield s; epush := epush s; epop := epop s; ernd := ernd s; dpush := dpush s; dpop := dpop s; olast := olast s; rer := rer s; rerp := v; oleft := oleft s |}.
-Definition set_oleft (s : st) (v : bool) : st := {| evq := evq s; cnt := cnt s; towake := towake s; sel := sel s; total := total s; ispan := ispan s; pc := pc s; cbit := cbit s; inl := inl s; kern := kern s; ares := ares s; jst := jst s; aw := aw s; acur := acur s; kpc := kpc s; earm := earm s; kw := kw s; tok := tok s; nextb := nextb s; opc := opc s; oco := oco s; ocbit := ocbit s; odis := odis s; ounw := ounw s; ofin := ofin s; opay := opay s; oto := oto s; odl := odl s; opdl := opdl s; ocall := ocall s; oalld := oalld s; ob := ob s; ocur := ocur s; oev := oev s; ojres := ojres s; fi := fi s; ostash := ostash s; now := now s; nexta := nexta s; nexte := nexte s; tops := tops s; bots := bots s; botd := botd s; sent := sent s; byield := byield s; epush := epush s; epop := epop s; ernd := ernd s; dpush := dpush s; dpop := dpop s; olast := olast s; rer := rer s; rerp := rerp s; oleft := v |}.
+Definition set_evq (s : st) (v : list qent) : st := {| evq := v; cnt := cnt s; towake := towake s; sel := sel s; total := total s; ispan := ispan s; pc := pc s; cbit := cbit s; inl := inl s; kern := kern s; ares := ares s; jst := jst s; aw := aw s; acur := acur s; kpc := kpc s; earm := earm s; kw := kw s; tok := tok s; nextb := nextb s; opc := opc s; oco := oco s; ocbit := ocbit s; odis := odis s; ounw := ounw s; ofin := ofin s; opay := opay s; oto := oto s; odl := odl s; opdl := opdl s; ocall := ocall s; oalld := oalld s; ob := ob s; ocur := ocur s; oev := oev s; ojres := ojres s; fi := fi s; ostash := ostash s; owk := owk s; now := now s; nexta := nexta s; nexte := nexte s; tops := tops s; bots := bots s; botd := botd s; sent := sent s; byield := byield s; epush := epush s; epop := epop s; ernd := ernd s; dpush := dpush s; dpop := dpop s; olast := olast s; rer := rer s; rerp := rerp s; oleft := oleft s |}.
+Definition set_cnt (s : st) (v : Z) : st := {| evq := evq s; cnt := v; towake := towake s; sel := sel s; total := total s; ispan := ispan s; pc := pc s; cbit := cbit s; inl := inl s; kern := kern s; ares := ares s; jst := jst s; aw := aw s; acur := acur s; kpc := kpc s; earm := earm s; kw := kw s; tok := tok s; nextb := nextb s; opc := opc s; oco := oco s; ocbit := ocbit s; odis := odis s; ounw := ounw s; ofin := ofin s; opay := opay s; oto := oto s; odl := odl s; opdl := opdl s; ocall := ocall s; oalld := oalld s; ob := ob s; ocur := ocur s; oev := oev s; ojres := ojres s; fi := fi s; ostash := ostash s; owk := owk s; now := now s; nexta := nexta s; nexte := nexte s; tops := tops s; bots := bots s; botd := botd s; sent := sent s; byield := byield s; epush := epush s; epop := epop s; ernd := ernd s; dpush := dpush s; dpop := dpop s; olast := olast s; rer := rer s; rerp := rerp s; oleft := oleft s |}.
+Definition set_towake (s : st) (v : option nat) : st := {| evq := evq s; cnt := cnt s; towake := v; sel := sel s; total := total s; ispan := ispan s; pc := pc s; cbit := cbit s; inl := inl s; kern := kern s; ares := ares s; jst := jst s; aw := aw s; acur := acur s; kpc := kpc s; earm := earm s; kw := kw s; tok := tok s; nextb := nextb s; opc := opc s; oco := oco s; ocbit := ocbit s; odis := odis s; ounw := ounw s; ofin := ofin s; opay := opay s; oto := oto s; odl := odl s; opdl := opdl s; ocall := ocall s; oalld := oalld s; ob := ob s; ocur := ocur s; oev := oev s; ojres := ojres s; fi := fi s; ostash := ostash s; owk := owk s; now := now s; nexta := nexta s; nexte := nexte s; tops := tops s; bots := bots s; botd := botd s; sent := sent s; byield := byield s; epush := epush s; epop := epop s; ernd := ernd s; dpush := dpush s; dpop := dpop s; olast := olast s; rer := rer s; rerp := rerp s; oleft := oleft s |}.
+Definition set_sel (s : st) (v : nat -> bool) : st := {| evq := evq s; cnt := cnt s; towake := towake s; sel := v; total := total s; ispan := ispan s; pc := pc s; cbit := cbit s; inl := inl s; kern := kern s; ares := ares s; jst := jst s; aw := aw s; acur := acur s; kpc := kpc s; earm := earm s; kw := kw s; tok := tok s; nextb := nextb s; opc := opc s; oco := oco s; ocbit := ocbit s; odis := odis s; ounw := ounw s; ofin := ofin s; opay := opay s; oto := oto s; odl := odl s; opdl := opdl s; ocall := ocall s; oalld := oalld s; ob := ob s; ocur := ocur s; oev := oev s; ojres := ojres s; fi := fi s; ostash := ostash s; owk := owk s; now := now s; nexta := nexta s; nexte := nexte s; tops := tops s; bots := bots s; botd := botd s; sent := sent s; byield := byield s; epush := epush s; epop := epop s; ernd := ernd s; dpush := dpush s; dpop := dpop s; olast := olast s; rer := rer s; rerp := rerp s; oleft := oleft s |}.
+Definition set_total (s : st) (v : nat) : st := {| evq := evq s; cnt := cnt s; towake := towake s; sel := sel s; total := v; ispan := ispan s; pc := pc s; cbit := cbit s; inl := inl s; kern := kern s; ares := ares s; jst := jst s; aw := aw s; acur := acur s; kpc := kpc s; earm := earm s; kw := kw s; tok := tok s; nextb := nextb s; opc := opc s; oco := oco s; ocbit := ocbit s; odis := odis s; ounw := ounw s; ofin := ofin s; opay := opay s; oto := oto s; odl := odl s; opdl := opdl s; ocall := ocall s; oalld := oalld s; ob := ob s; ocur := ocur s; oev := oev s; ojres := ojres s; fi := fi s; ostash := ostash s; owk := owk s; now := now s; nexta := nexta s; nexte := nexte s; tops := tops s; bots := bots s; botd := botd s; sent := sent s; byield := byield s; epush := epush s; epop := epop s; ernd := ernd s; dpush := dpush s; dpop := dpop s; olast := olast s; rer := rer s; rerp := rerp s; oleft := oleft s |}.
+Definition set_ispan (s : st) (v : bool) : st := {| evq := evq s; cnt := cnt s; towake := towake s; sel := sel s; total := total s; ispan := v; pc := pc s; cbit := cbit s; inl := inl s; kern := kern s; ares := ares s; jst := jst s; aw := aw s; acur := acur s; kpc := kpc s; earm := earm s; kw := kw s; tok := tok s; nextb := nextb s; opc := opc s; oco := oco s; ocbit := ocbit s; odis := odis s; ounw := ounw s; ofin := ofin s; opay := opay s; oto := oto s; odl := odl s; opdl := opdl s; ocall := ocall s; oalld := oalld s; ob := ob s; ocur := ocur s; oev := oev s; ojres := ojres s; fi := fi s; ostash := ostash s; owk := owk s; now := now s; nexta := nexta s; nexte := nexte s; tops := tops s; bots := bots s; botd := botd s; sent := sent s; byield := byield s; epush := epush s; epop := epop s; ernd := ernd s; dpush := dpush s; dpop := dpop s; olast := olast s; rer := rer s; rerp := rerp s; oleft := oleft s |}.
+Definition set_pc (s : st) (v : nat -> apc) : st := {| evq := evq s; cnt := cnt s; towake := towake s; sel := sel s; total := total s; ispan := ispan s; pc := v; cbit := cbit s; inl := inl s; kern := kern s; ares := ares s; jst := jst s; aw := aw s; acur := acur s; kpc := kpc s; earm := earm s; kw := kw s; tok := tok s; nextb := nextb s; opc := opc s; oco := oco s; ocbit := ocbit s; odis := odis s; ounw := ounw s; ofin := ofin s; opay := opay s; oto := oto s; odl := odl s; opdl := opdl s; ocall := ocall s; oalld := oalld s; ob := ob s; ocur := ocur s; oev := oev s; ojres := ojres s; fi := fi s; ostash := ostash s; owk := owk s; now := now s; nexta := nexta s; nexte := nexte s; tops := tops s; bots := bots s; botd := botd s; sent := sent s; byield := byield s; epush := epush s; epop := epop s; ernd := ernd s; dpush := dpush s; dpop := dpop s; olast := olast s; rer := rer s; rerp := rerp s; oleft := oleft s |}.
+Definition set_cbit (s : st) (v : nat -> bool) : st := {| evq := evq s; cnt := cnt s; towake := towake s; sel := sel s; total := total s; ispan := ispan s; pc := pc s; cbit := v; inl := inl s; kern := kern s; ares := ares s; jst := jst s; aw := aw s; acur := acur s; kpc := kpc s; earm := earm s; kw := kw s; tok := tok s; nextb := nextb s; opc := opc s; oco := oco s; ocbit := ocbit s; odis := odis s; ounw := ounw s; ofin := ofin s; opay := opay s; oto := oto s; odl := odl s; opdl := opdl s; ocall := ocall s; oalld := oalld s; ob := ob s; ocur := ocur s; oev := oev s; ojres := ojres s; fi := fi s; ostash := ostash s; owk := owk s; now := now s; nexta := nexta s; nexte := nexte s; tops := tops s; bots := bots s; botd := botd s; sent := sent s; byield := byield s; epush := epush s; epop := epop s; ernd := ernd s; dpush := dpush s; dpop := dpop s; olast := olast s; rer := rer s; rerp := rerp s; oleft := oleft s |}.
+Definition set_inl (s : st) (v : nat -> bool) : st := {| evq := evq s; cnt := cnt s; towake := towake s; sel := sel s; total := total s; ispan := ispan s; pc := pc s; cbit := cbit s; inl := v; kern := kern s; ares := ares s; jst := jst s; aw := aw s; acur := acur s; kpc := kpc s; earm := earm s; kw := kw s; tok := tok s; nextb := nextb s; opc := opc s; oco := oco s; ocbit := ocbit s; odis := odis s; ounw := ounw s; ofin := ofin s; opay := opay s; oto := oto s; odl := odl s; opdl := opdl s; ocall := ocall s; oalld := oalld s; ob := ob s; ocur := ocur s; oev := oev s; ojres := ojres s; fi := fi s; ostash := ostash s; owk := owk s; now := now s; nexta := nexta s; nexte := nexte s; tops := tops s; bots := bots s; botd := botd s; sent := sent s; byield := byield s; epush := epush s; epop := epop s; ernd := ernd s; dpush := dpush s; dpop := dpop s; olast := olast s; rer := rer s; rerp := rerp s; oleft := oleft s |}.
+Definition set_kern (s : st) (v : nat -> nat) : st := {| evq := evq s; cnt := cnt s; towake := towake s; sel := sel s; total := total s; ispan := ispan s; pc := pc s; cbit := cbit s; inl := inl s; kern := v; ares := ares s; jst := jst s; aw := aw s; acur := acur s; kpc := kpc s; earm := earm s; kw := kw s; tok := tok s; nextb := nextb s; opc := opc s; oco := oco s; ocbit := ocbit s; odis := odis s; ounw := ounw s; ofin := ofin s; opay := opay s; oto := oto s; odl := odl s; opdl := opdl s; ocall := ocall s; oalld := oalld s; ob := ob s; ocur := ocur s; oev := oev s; ojres := ojres s; fi := fi s; ostash := ostash s; owk := owk s; now := now s; nexta := nexta s; nexte := nexte s; tops := tops s; bots := bots s; botd := botd s; sent := sent s; byield := byield s; epush := epush s; epop := epop s; ernd := ernd s; dpush := dpush s; dpop := dpop s; olast := olast s; rer := rer s; rerp := rerp s; oleft := oleft s |}.
+Definition set_ares (s : st) (v : nat -> aresult) : st := {| evq := evq s; cnt := cnt s; towake := towake s; sel := sel s; total := total s; ispan := ispan s; pc := pc s; cbit := cbit s; inl := inl s; kern := kern s; ares := v; jst := jst s; aw := aw s; acur := acur s; kpc := kpc s; earm := earm s; kw := kw s; tok := tok s; nextb := nextb s; opc := opc s; oco := oco s; ocbit := ocbit s; odis := odis s; ounw := ounw s; ofin := ofin s; opay := opay s; oto := oto s; odl := odl s; opdl := opdl s; ocall := ocall s; oalld := oalld s; ob := ob s; ocur := ocur s; oev := oev s; ojres := ojres s; fi := fi s; ostash := ostash s; owk := owk s; now := now s; nexta := nexta s; nexte := nexte s; tops := tops s; bots := bots s; botd := botd s; sent := sent s; byield := byield s; epush := epush s; epop := epop s; ernd := ernd s; dpush := dpush s; dpop := dpop s; olast := olast s; rer := rer s; rerp := rerp s; oleft := oleft s |}.
+Definition set_jst (s : st) (v : nat -> bool) : st := {| evq := evq s; cnt := cnt s; towake := towake s; sel := sel s; total := total s; ispan := ispan s; pc := pc s; cbit := cbit s; inl := inl s; kern := kern s; ares := ares s; jst := v; aw := aw s; acur := acur s; kpc := kpc s; earm := earm s; kw := kw s; tok := tok s; nextb := nextb s; opc := opc s; oco := oco s; ocbit := ocbit s; odis := odis s; ounw := ounw s; ofin := ofin s; opay := opay s; oto := oto s; odl := odl s; opdl := opdl s; ocall := ocall s; oalld := oalld s; ob := ob s; ocur := ocur s; oev := oev s; ojres := ojres s; fi := fi s; ostash := ostash s; owk := owk s; now := now s; nexta := nexta s; nexte := nexte s; tops := tops s; bots := bots s; botd := botd s; sent := sent s; byield := byield s; epush := epush s; epop := epop s; ernd := ernd s; dpush := dpush s; dpop := dpop s; olast := olast s; rer := rer s; rerp := rerp s; oleft := oleft s |}.
+Definition set_aw (s : st) (v : nat -> nat) : st := {| evq := evq s; cnt := cnt s; towake := towake s; sel := sel s; total := total s; ispan := ispan s; pc := pc s; cbit := cbit s; inl := inl s; kern := kern s; ares := ares s; jst := jst s; aw := v; acur := acur s; kpc := kpc s; earm := earm s; kw := kw s; tok := tok s; nextb := nextb s; opc := opc s; oco := oco s; ocbit := ocbit s; odis := odis s; ounw := ounw s; ofin := ofin s; opay := opay s; oto := oto s; odl := odl s; opdl := opdl s; ocall := ocall s; oalld := oalld s; ob := ob s; ocur := ocur s; oev := oev s; ojres := ojres s; fi := fi s; ostash := ostash s; owk := owk s; now := now s; nexta := nexta s; nexte := nexte s; tops := tops s; bots := bots s; botd := botd s; sent := sent s; byield := byield s; epush := epush s; epop := epop s; ernd := ernd s; dpush := dpush s; dpop := dpop s; olast := olast s; rer := rer s; rerp := rerp s; oleft := oleft s |}.
+Definition set_acur (s : st) (v : nat -> nat) : st := {| evq := evq s; cnt := cnt s; towake := towake s; sel := sel s; total := total s; ispan := ispan s; pc := pc s; cbit := cbit s; inl := inl s; kern := kern s; ares := ares s; jst := jst s; aw := aw s; acur := v; kpc := kpc s; earm := earm s; kw := kw s; tok := tok s; nextb := nextb s; opc := opc s; oco := oco s; ocbit := ocbit s; odis := odis s; ounw := ounw s; ofin := ofin s; opay := opay s; oto := oto s; odl := odl s; opdl := opdl s; ocall := ocall s; oalld := oalld s; ob := ob s; ocur := ocur s; oev := oev s; ojres := ojres s; fi := fi s; ostash := ostash s; owk := owk s; now := now s; nexta := nexta s; nexte := nexte s; tops := tops s; bots := bots s; botd := botd s; sent := sent s; byield := byield s; epush := epush s; epop := epop s; ernd := ernd s; dpush := dpush s; dpop := dpop s; olast := olast s; rer := rer s; rerp := rerp s; oleft := oleft s |}.
+Definition set_kpc (s : st) (v : nat -> kpcT) : st := {| evq := evq s; cnt := cnt s; towake := towake s; sel := sel s; total := total s; ispan := ispan s; pc := pc s; cbit := cbit s; inl := inl s; kern := kern s; ares := ares s; jst := jst s; aw := aw s; acur := acur s; kpc := v; earm := earm s; kw := kw s; tok := tok s; nextb := nextb s; opc := opc s; oco := oco s; ocbit := ocbit s; odis := odis s; ounw := ounw s; ofin := ofin s; opay := opay s; oto := oto s; odl := odl s; opdl := opdl s; ocall := ocall s; oalld := oalld s; ob := ob s; ocur := ocur s; oev := oev s; ojres := ojres s; fi := fi s; ostash := ostash s; owk := owk s; now := now s; nexta := nexta s; nexte := nexte s; tops := tops s; bots := bots s; botd := botd s; sent := sent s; byield := byield s; epush := epush s; epop := epop s; ernd := ernd s; dpush := dpush s; dpop := dpop s; olast := olast s; rer := rer s; rerp := rerp s; oleft := oleft s |}.
+Definition set_earm (s : st) (v : nat -> nat) : st := {| evq := evq s; cnt := cnt s; towake := towake s; sel := sel s; total := total s; ispan := ispan s; pc := pc s; cbit := cbit s; inl := inl s; kern := kern s; ares := ares s; jst := jst s; aw := aw s; acur := acur s; kpc := kpc s; earm := v; kw := kw s; tok := tok s; nextb := nextb s; opc := opc s; oco := oco s; ocbit := ocbit s; odis := odis s; ounw := ounw s; ofin := ofin s; opay := opay s; oto := oto s; odl := odl s; opdl := opdl s; ocall := ocall s; oalld := oalld s; ob := ob s; ocur := ocur s; oev := oev s; ojres := ojres s; fi := fi s; ostash := ostash s; owk := owk s; now := now s; nexta := nexta s; nexte := nexte s; tops := tops s; bots := bots s; botd := botd s; sent := sent s; byield := byield s; epush := epush s; epop := epop s; ernd := ernd s; dpush := dpush s; dpop := dpop s; olast := olast s; rer := rer s; rerp := rerp s; oleft := oleft s |}.
+Definition set_kw (s : st) (v : nat -> nat) : st := {| evq := evq s; cnt := cnt s; towake := towake s; sel := sel s; total := total s; ispan := ispan s; pc := pc s; cbit := cbit s; inl := inl s; kern := kern s; ares := ares s; jst := jst s; aw := aw s; acur := acur s; kpc := kpc s; earm := earm s; kw := v; tok := tok s; nextb := nextb s; opc := opc s; oco := oco s; ocbit := ocbit s; odis := odis s; ounw := ounw s; ofin := ofin s; opay := opay s; oto := oto s; odl := odl s; opdl := opdl s; ocall := ocall s; oalld := oalld s; ob := ob s; ocur := ocur s; oev := oev s; ojres := ojres s; fi := fi s; ostash := ostash s; owk := owk s; now := now s; nexta := nexta s; nexte := nexte s; tops := tops s; bots := bots s; botd := botd s; sent := sent s; byield := byield s; epush := epush s; epop := epop s; ernd := ernd s; dpush := dpush s; dpop := dpop s; olast := olast s; rer := rer s; rerp := rerp s; oleft := oleft s |}.
+Definition set_tok (s : st) (v : nat -> bool) : st := {| evq := evq s; cnt := cnt s; towake := towake s; sel := sel s; total := total s; ispan := ispan s; pc := pc s; cbit := cbit s; inl := inl s; kern := kern s; ares := ares s; jst := jst s; aw := aw s; acur := acur s; kpc := kpc s; earm := earm s; kw := kw s; tok := v; nextb := nextb s; opc := opc s; oco := oco s; ocbit := ocbit s; odis := odis s; ounw := ounw s; ofin := ofin s; opay := opay s; oto := oto s; odl := odl s; opdl := opdl s; ocall := ocall s; oalld := oalld s; ob := ob s; ocur := ocur s; oev := oev s; ojres := ojres s; fi := fi s; ostash := ostash s; owk := owk s; now := now s; nexta := nexta s; nexte := nexte s; tops := tops s; bots := bots s; botd := botd s; sent := sent s; byield := byield s; epush := epush s; epop := epop s; ernd := ernd s; dpush := dpush s; dpop := dpop s; olast := olast s; rer := rer s; rerp := rerp s; oleft := oleft s |}.
+Definition set_nextb (s : st) (v : nat) : st := {| evq := evq s; cnt := cnt s; towake := towake s; sel := sel s; total := total s; ispan := ispan s; pc := pc s; cbit := cbit s; inl := inl s; kern := kern s; ares := ares s; jst := jst s; aw := aw s; acur := acur s; kpc := kpc s; earm := earm s; kw := kw s; tok := tok s; nextb := v; opc := opc s; oco := oco s; ocbit := ocbit s; odis := odis s; ounw := ounw s; ofin := ofin s; opay := opay s; oto := oto s; odl := odl s; opdl := opdl s; ocall := ocall s; oalld := oalld s; ob := ob s; ocur := ocur s; oev := oev s; ojres := ojres s; fi := fi s; ostash := ostash s; owk := owk s; now := now s; nexta := nexta s; nexte := nexte s; tops := tops s; bots := bots s; botd := botd s; sent := sent s; byield := byield s; epush := epush s; epop := epop s; ernd := ernd s; dpush := dpush s; dpop := dpop s; olast := olast s; rer := rer s; rerp := rerp s; oleft := oleft s |}.
+Definition set_opc (s : st) (v : opcT) : st := {| evq := evq s; cnt := cnt s; towake := towake s; sel := sel s; total := total s; ispan := ispan s; pc := pc s; cbit := cbit s; inl := inl s; kern := kern s; ares := ares s; jst := jst s; aw := aw s; acur := acur s; kpc := kpc s; earm := earm s; kw := kw s; tok := tok s; nextb := nextb s; opc := v; oco := oco s; ocbit := ocbit s; odis := odis s; ounw := ounw s; ofin := ofin s; opay := opay s; oto := oto s; odl := odl s; opdl := opdl s; ocall := ocall s; oalld := oalld s; ob := ob s; ocur := ocur s; oev := oev s; ojres := ojres s; fi := fi s; ostash := ostash s; owk := owk s; now := now s; nexta := nexta s; nexte := nexte s; tops := tops s; bots := bots s; botd := botd s; sent := sent s; byield := byield s; epush := epush s; epop := epop s; ernd := ernd s; dpush := dpush s; dpop := dpop s; olast := olast s; rer := rer s; rerp := rerp s; oleft := oleft s |}.
+Definition set_oco (s : st) (v : bool) : st := {| evq := evq s; cnt := cnt s; towake := towake s; sel := sel s; total := total s; ispan := ispan s; pc := pc s; cbit := cbit s; inl := inl s; kern := kern s; ares := ares s; jst := jst s; aw := aw s; acur := acur s; kpc := kpc s; earm := earm s; kw := kw s; tok := tok s; nextb := nextb s; opc := opc s; oco := v; ocbit := ocbit s; odis := odis s; ounw := ounw s; ofin := ofin s; opay := opay s; oto := oto s; odl := odl s; opdl := opdl s; ocall := ocall s; oalld := oalld s; ob := ob s; ocur := ocur s; oev := oev s; ojres := ojres s; fi := fi s; ostash := ostash s; owk := owk s; now := now s; nexta := nexta s; nexte := nexte s; tops := tops s; bots := bots s; botd := botd s; sent := sent s; byield := byield s; epush := epush s; epop := epop s; ernd := ernd s; dpush := dpush s; dpop := dpop s; olast := olast s; rer := rer s; rerp := rerp s; oleft := oleft s |}.
+Definition set_ocbit (s : st) (v : bool) : st := {| evq := evq s; cnt := cnt s; towake := towake s; sel := sel s; total := total s; ispan := ispan s; pc := pc s; cbit := cbit s; inl := inl s; kern := kern s; ares := ares s; jst := jst s; aw := aw s; acur := acur s; kpc := kpc s; earm := earm s; kw := kw s; tok := tok s; nextb := nextb s; opc := opc s; oco := oco s; ocbit := v; odis := odis s; ounw := ounw s; ofin := ofin s; opay := opay s; oto := oto s; odl := odl s; opdl := opdl s; ocall := ocall s; oalld := oalld s; ob := ob s; ocur := ocur s; oev := oev s; ojres := ojres s; fi := fi s; ostash := ostash s; owk := owk s; now := now s; nexta := nexta s; nexte := nexte s; tops := tops s; bots := bots s; botd := botd s; sent := sent s; byield := byield s; epush := epush s; epop := epop s; ernd := ernd s; dpush := dpush s; dpop := dpop s; olast := olast s; rer := rer s; rerp := rerp s; oleft := oleft s |}.
+Definition set_odis (s : st) (v : nat) : st := {| evq := evq s; cnt := cnt s; towake := towake s; sel := sel s; total := total s; ispan := ispan s; pc := pc s; cbit := cbit s; inl := inl s; kern := kern s; ares := ares s; jst := jst s; aw := aw s; acur := acur s; kpc := kpc s; earm := earm s; kw := kw s; tok := tok s; nextb := nextb s; opc := opc s; oco := oco s; ocbit := ocbit s; odis := v; ounw := ounw s; ofin := ofin s; opay := opay s; oto := oto s; odl := odl s; opdl := opdl s; ocall := ocall s; oalld := oalld s; ob := ob s; ocur := ocur s; oev := oev s; ojres := ojres s; fi := fi s; ostash := ostash s; owk := owk s; now := now s; nexta := nexta s; nexte := nexte s; tops := tops s; bots := bots s; botd := botd s; sent := sent s; byield := byield s; epush := epush s; epop := epop s; ernd := ernd s; dpush := dpush s; dpop := dpop s; olast := olast s; rer := rer s; rerp := rerp s; oleft := oleft s |}.
+Definition set_ounw (s : st) (v : unw) : st := {| evq := evq s; cnt := cnt s; towake := towake s; sel := sel s; total := total s; ispan := ispan s; pc := pc s; cbit := cbit s; inl := inl s; kern := kern s; ares := ares s; jst := jst s; aw := aw s; acur := acur s; kpc := kpc s; earm := earm s; kw := kw s; tok := tok s; nextb := nextb s; opc := opc s; oco := oco s; ocbit := ocbit s; odis := odis s; ounw := v; ofin := ofin s; opay := opay s; oto := oto s; odl := odl s; opdl := opdl s; ocall := ocall s; oalld := oalld s; ob := ob s; ocur := ocur s; oev := oev s; ojres := ojres s; fi := fi s; ostash := ostash s; owk := owk s; now := now s; nexta := nexta s; nexte := nexte s; tops := tops s; bots := bots s; botd := botd s; sent := sent s; byield := byield s; epush := epush s; epop := epop s; ernd := ernd s; dpush := dpush s; dpop := dpop s; olast := olast s; rer := rer s; rerp := rerp s; oleft := oleft s |}.
+Definition set_ofin (s : st) (v : nat) : st := {| evq := evq s; cnt := cnt s; towake := towake s; sel := sel s; total := total s; ispan := ispan s; pc := pc s; cbit := cbit s; inl := inl s; kern := kern s; ares := ares s; jst := jst s; aw := aw s; acur := acur s; kpc := kpc s; earm := earm s; kw := kw s; tok := tok s; nextb := nextb s; opc := opc s; oco := oco s; ocbit := ocbit s; odis := odis s; ounw := ounw s; ofin := v; opay := opay s; oto := oto s; odl := odl s; opdl := opdl s; ocall := ocall s; oalld := oalld s; ob := ob s; ocur := ocur s; oev := oev s; ojres := ojres s; fi := fi s; ostash := ostash s; owk := owk s; now := now s; nexta := nexta s; nexte := nexte s; tops := tops s; bots := bots s; botd := botd s; sent := sent s; byield := byield s; epush := epush s; epop := epop s; ernd := ernd s; dpush := dpush s; dpop := dpop s; olast := olast s; rer := rer s; rerp := rerp s; oleft := oleft s |}.
+Definition set_opay (s : st) (v : unw) : st := {| evq := evq s; cnt := cnt s; towake := towake s; sel := sel s; total := total s; ispan := ispan s; pc := pc s; cbit := cbit s; inl := inl s; kern := kern s; ares := ares s; jst := jst s; aw := aw s; acur := acur s; kpc := kpc s; earm := earm s; kw := kw s; tok := tok s; nextb := nextb s; opc := opc s; oco := oco s; ocbit := ocbit s; odis := odis s; ounw := ounw s; ofin := ofin s; opay := v; oto := oto s; odl := odl s; opdl := opdl s; ocall := ocall s; oalld := oalld s; ob := ob s; ocur := ocur s; oev := oev s; ojres := ojres s; fi := fi s; ostash := ostash s; owk := owk s; now := now s; nexta := nexta s; nexte := nexte s; tops := tops s; bots := bots s; botd := botd s; sent := sent s; byield := byield s; epush := epush s; epop := epop s; ernd := ernd s; dpush := dpush s; dpop := dpop s; olast := olast s; rer := rer s; rerp := rerp s; oleft := oleft s |}.
+Definition set_oto (s : st) (v : option Z) : st := {| evq := evq s; cnt := cnt s; towake := towake s; sel := sel s; total := total s; ispan := ispan s; pc := pc s; cbit := cbit s; inl := inl s; kern := kern s; ares := ares s; jst := jst s; aw := aw s; acur := acur s; kpc := kpc s; earm := earm s; kw := kw s; tok := tok s; nextb := nextb s; opc := opc s; oco := oco s; ocbit := ocbit s; odis := odis s; ounw := ounw s; ofin := ofin s; opay := opay s; oto := v; odl := odl s; opdl := opdl s; ocall := ocall s; oalld := oalld s; ob := ob s; ocur := ocur s; oev := oev s; ojres := ojres s; fi := fi s; ostash := ostash s; owk := owk s; now := now s; nexta := nexta s; nexte := nexte s; tops := tops s; bots := bots s; botd := botd s; sent := sent s; byield := byield s; epush := epush s; epop := epop s; ernd := ernd s; dpush := dpush s; dpop := dpop s; olast := olast s; rer := rer s; rerp := rerp s; oleft := oleft s |}.
+Definition set_odl (s : st) (v : option Z) : st := {| evq := evq s; cnt := cnt s; towake := towake s; sel := sel s; total := total s; ispan := ispan s; pc := pc s; cbit := cbit s; inl := inl s; kern := kern s; ares := ares s; jst := jst s; aw := aw s; acur := acur s; kpc := kpc s; earm := earm s; kw := kw s; tok := tok s; nextb := nextb s; opc := opc s; oco := oco s; ocbit := ocbit s; odis := odis s; ounw := ounw s; ofin := ofin s; opay := opay s; oto := oto s; odl := v; opdl := opdl s; ocall := ocall s; oalld := oalld s; ob := ob s; ocur := ocur s; oev := oev s; ojres := ojres s; fi := fi s; ostash := ostash s; owk := owk s; now := now s; nexta := nexta s; nexte := nexte s; tops := tops s; bots := bots s; botd := botd s; sent := sent s; byield := byield s; epush := epush s; epop := epop s; ernd := ernd s; dpush := dpush s; dpop := dpop s; olast := olast s; rer := rer s; rerp := rerp s; oleft := oleft s |}.
+Definition set_opdl (s : st) (v : option Z) : st := {| evq := evq s; cnt := cnt s; towake := towake s; sel := sel s; total := total s; ispan := ispan s; pc := pc s; cbit := cbit s; inl := inl s; kern := kern s; ares := ares s; jst := jst s; aw := aw s; acur := acur s; kpc := kpc s; earm := earm s; kw := kw s; tok := tok s; nextb := nextb s; opc := opc s; oco := oco s; ocbit := ocbit s; odis := odis s; ounw := ounw s; ofin := ofin s; opay := opay s; oto := oto s; odl := odl s; opdl := v; ocall := ocall s; oalld := oalld s; ob := ob s; ocur := ocur s; oev := oev s; ojres := ojres s; fi := fi s; ostash := ostash s; owk := owk s; now := now s; nexta := nexta s; nexte := nexte s; tops := tops s; bots := bots s; botd := botd s; sent := sent s; byield := byield s; epush := epush s; epop := epop s; ernd := ernd s; dpush := dpush s; dpop := dpop s; olast := olast s; rer := rer s; rerp := rerp s; oleft := oleft s |}.
+Definition set_ocall (s : st) (v : Z) : st := {| evq := evq s; cnt := cnt s; towake := towake s; sel := sel s; total := total s; ispan := ispan s; pc := pc s; cbit := cbit s; inl := inl s; kern := kern s; ares := ares s; jst := jst s; aw := aw s; acur := acur s; kpc := kpc s; earm := earm s; kw := kw s; tok := tok s; nextb := nextb s; opc := opc s; oco := oco s; ocbit := ocbit s; odis := odis s; ounw := ounw s; ofin := ofin s; opay := opay s; oto := oto s; odl := odl s; opdl := opdl s; ocall := v; oalld := oalld s; ob := ob s; ocur := ocur s; oev := oev s; ojres := ojres s; fi := fi s; ostash := ostash s; owk := owk s; now := now s; nexta := nexta s; nexte := nexte s; tops := tops s; bots := bots s; botd := botd s; sent := sent s; byield := byield s; epush := epush s; epop := epop s; ernd := ernd s; dpush := dpush s; dpop := dpop s; olast := olast s; rer := rer s; rerp := rerp s; oleft := oleft s |}.
+Definition set_oalld (s : st) (v : bool) : st := {| evq := evq s; cnt := cnt s; towake := towake s; sel := sel s; total := total s; ispan := ispan s; pc := pc s; cbit := cbit s; inl := inl s; kern := kern s; ares := ares s; jst := jst s; aw := aw s; acur := acur s; kpc := kpc s; earm := earm s; kw := kw s; tok := tok s; nextb := nextb s; opc := opc s; oco := oco s; ocbit := ocbit s; odis := odis s; ounw := ounw s; ofin := ofin s; opay := opay s; oto := oto s; odl := odl s; opdl := opdl s; ocall := ocall s; oalld := v; ob := ob s; ocur := ocur s; oev := oev s; ojres := ojres s; fi := fi s; ostash := ostash s; owk := owk s; now := now s; nexta := nexta s; nexte := nexte s; tops := tops s; bots := bots s; botd := botd s; sent := sent s; byield := byield s; epush := epush s; epop := epop s; ernd := ernd s; dpush := dpush s; dpop := dpop s; olast := olast s; rer := rer s; rerp := rerp s; oleft := oleft s |}.
+Definition set_ob (s : st) (v : nat) : st := {| evq := evq s; cnt := cnt s; towake := towake s; sel := sel s; total := total s; ispan := ispan s; pc := pc s; cbit := cbit s; inl := inl s; kern := kern s; ares := ares s; jst := jst s; aw := aw s; acur := acur s; kpc := kpc s; earm := earm s; kw := kw s; tok := tok s; nextb := nextb s; opc := opc s; oco := oco s; ocbit := ocbit s; odis := odis s; ounw := ounw s; ofin := ofin s; opay := opay s; oto := oto s; odl := odl s; opdl := opdl s; ocall := ocall s; oalld := oalld s; ob := v; ocur := ocur s; oev := oev s; ojres := ojres s; fi := fi s; ostash := ostash s; owk := owk s; now := now s; nexta := nexta s; nexte := nexte s; tops := tops s; bots := bots s; botd := botd s; sent := sent s; byield := byield s; epush := epush s; epop := epop s; ernd := ernd s; dpush := dpush s; dpop := dpop s; olast := olast s; rer := rer s; rerp := rerp s; oleft := oleft s |}.
+Definition set_ocur (s : st) (v : nat) : st := {| evq := evq s; cnt := cnt s; towake := towake s; sel := sel s; total := total s; ispan := ispan s; pc := pc s; cbit := cbit s; inl := inl s; kern := kern s; ares := ares s; jst := jst s; aw := aw s; acur := acur s; kpc := kpc s; earm := earm s; kw := kw s; tok := tok s; nextb := nextb s; opc := opc s; oco := oco s; ocbit := ocbit s; odis := odis s; ounw := ounw s; ofin := ofin s; opay := opay s; oto := oto s; odl := odl s; opdl := opdl s; ocall := ocall s; oalld := oalld s; ob := ob s; ocur := v; oev := oev s; ojres := ojres s; fi := fi s; ostash := ostash s; owk := owk s; now := now s; nexta := nexta s; nexte := nexte s; tops := tops s; bots := bots s; botd := botd s; sent := sent s; byield := byield s; epush := epush s; epop := epop s; ernd := ernd s; dpush := dpush s; dpop := dpop s; olast := olast s; rer := rer s; rerp := rerp s; oleft := oleft s |}.
+Definition set_oev (s : st) (v : nat) : st := {| evq := evq s; cnt := cnt s; towake := towake s; sel := sel s; total := total s; ispan := ispan s; pc := pc s; cbit := cbit s; inl := inl s; kern := kern s; ares := ares s; jst := jst s; aw := aw s; acur := acur s; kpc := kpc s; earm := earm s; kw := kw s; tok := tok s; nextb := nextb s; opc := opc s; oco := oco s; ocbit := ocbit s; odis := odis s; ounw := ounw s; ofin := ofin s; opay := opay s; oto := oto s; odl := odl s; opdl := opdl s; ocall := ocall s; oalld := oalld s; ob := ob s; ocur := ocur s; oev := v; ojres := ojres s; fi := fi s; ostash := ostash s; owk := owk s; now := now s; nexta := nexta s; nexte := nexte s; tops := tops s; bots := bots s; botd := botd s; sent := sent s; byield := byield s; epush := epush s; epop := epop s; ernd := ernd s; dpush := dpush s; dpop := dpop s; olast := olast s; rer := rer s; rerp := rerp s; oleft := oleft s |}.
+Definition set_ojres (s : st) (v : aresult) : st := {| evq := evq s; cnt := cnt s; towake := towake s; sel := sel s; total := total s; ispan := ispan s; pc := pc s; cbit := cbit s; inl := inl s; kern := kern s; ares := ares s; jst := jst s; aw := aw s; acur := acur s; kpc := kpc s; earm := earm s; kw := kw s; tok := tok s; nextb := nextb s; opc := opc s; oco := oco s; ocbit := ocbit s; odis := odis s; ounw := ounw s; ofin := ofin s; opay := opay s; oto := oto s; odl := odl s; opdl := opdl s; ocall := ocall s; oalld := oalld s; ob := ob s; ocur := ocur s; oev := oev s; ojres := v; fi := fi s; ostash := ostash s; owk := owk s; now := now s; nexta := nexta s; nexte := nexte s; tops := tops s; bots := bots s; botd := botd s; sent := sent s; byield := byield s; epush := epush s; epop := epop s; ernd := ernd s; dpush := dpush s; dpop := dpop s; olast := olast s; rer := rer s; rerp := rerp s; oleft := oleft s |}.
+Definition set_fi (s : st) (v : nat) : st := {| evq := evq s; cnt := cnt s; towake := towake s; sel := sel s; total := total s; ispan := ispan s; pc := pc s; cbit := cbit s; inl := inl s; kern := kern s; ares := ares s; jst := jst s; aw := aw s; acur := acur s; kpc := kpc s; earm := earm s; kw := kw s; tok := tok s; nextb := nextb s; opc := opc s; oco := oco s; ocbit := ocbit s; odis := odis s; ounw := ounw s; ofin := ofin s; opay := opay s; oto := oto s; odl := odl s; opdl := opdl s; ocall := ocall s; oalld := oalld s; ob := ob s; ocur := ocur s; oev := oev s; ojres := ojres s; fi := v; ostash := ostash s; owk := owk s; now := now s; nexta := nexta s; nexte := nexte s; tops := tops s; bots := bots s; botd := botd s; sent := sent s; byield := byield s; epush := epush s; epop := epop s; ernd := ernd s; dpush := dpush s; dpop := dpop s; olast := olast s; rer := rer s; rerp := rerp s; oleft := oleft s |}.
+Definition set_ostash (s : st) (v : qent) : st := {| evq := evq s; cnt := cnt s; towake := towake s; sel := sel s; total := total s; ispan := ispan s; pc := pc s; cbit := cbit s; inl := inl s; kern := kern s; ares := ares s; jst := jst s; aw := aw s; acur := acur s; kpc := kpc s; earm := earm s; kw := kw s; tok := tok s; nextb := nextb s; opc := opc s; oco := oco s; ocbit := ocbit s; odis := odis s; ounw := ounw s; ofin := ofin s; opay := opay s; oto := oto s; odl := odl s; opdl := opdl s; ocall := ocall s; oalld := oalld s; ob := ob s; ocur := ocur s; oev := oev s; ojres := ojres s; fi := fi s; ostash := v; owk := owk s; now := now s; nexta := nexta s; nexte := nexte s; tops := tops s; bots := bots s; botd := botd s; sent := sent s; byield := byield s; epush := epush s; epop := epop s; ernd := ernd s; dpush := dpush s; dpop := dpop s; olast := olast s; rer := rer s; rerp := rerp s; oleft := oleft s |}.
+Definition set_owk (s : st) (v : bool) : st := {| evq := evq s; cnt := cnt s; towake := towake s; sel := sel s; total := total s; ispan := ispan s; pc := pc s; cbit := cbit s; inl := inl s; kern := kern s; ares := ares s; jst := jst s; aw := aw s; acur := acur s; kpc := kpc s; earm := earm s; kw := kw s; tok := tok s; nextb := nextb s; opc := opc s; oco := oco s; ocbit := ocbit s; odis := odis s; ounw := ounw s; ofin := ofin s; opay := opay s; oto := oto s; odl := odl s; opdl := opdl s; ocall := ocall s; oalld := oalld s; ob := ob s; ocur := ocur s; oev := oev s; ojres := ojres s; fi := fi s; ostash := ostash s; owk := v; now := now s; nexta := nexta s; nexte := nexte s; tops := tops s; bots := bots s; botd := botd s; sent := sent s; byield := byield s; epush := epush s; epop := epop s; ernd := ernd s; dpush := dpush s; dpop := dpop s; olast := olast s; rer := rer s; rerp := rerp s; oleft := oleft s |}.
+Definition set_now (s : st) (v : Z) : st := {| evq := evq s; cnt := cnt s; towake := towake s; sel := sel s; total := total s; ispan := ispan s; pc := pc s; cbit := cbit s; inl := inl s; kern := kern s; ares := ares s; jst := jst s; aw := aw s; acur := acur s; kpc := kpc s; earm := earm s; kw := kw s; tok := tok s; nextb := nextb s; opc := opc s; oco := oco s; ocbit := ocbit s; odis := odis s; ounw := ounw s; ofin := ofin s; opay := opay s; oto := oto s; odl := odl s; opdl := opdl s; ocall := ocall s; oalld := oalld s; ob := ob s; ocur := ocur s; oev := oev s; ojres := ojres s; fi := fi s; ostash := ostash s; owk := owk s; now := v; nexta := nexta s; nexte := nexte s; tops := tops s; bots := bots s; botd := botd s; sent := sent s; byield := byield s; epush := epush s; epop := epop s; ernd := ernd s; dpush := dpush s; dpop := dpop s; olast := olast s; rer := rer s; rerp := rerp s; oleft := oleft s |}.
+Definition set_nexta (s : st) (v : nat) : st := {| evq := evq s; cnt := cnt s; towake := towake s; sel := sel s; total := total s; ispan := ispan s; pc := pc s; cbit := cbit s; inl := inl s; kern := kern s; ares := ares s; jst := jst s; aw := aw s; acur := acur s; kpc := kpc s; earm := earm s; kw := kw s; tok := tok s; nextb := nextb s; opc := opc s; oco := oco s; ocbit := ocbit s; odis := odis s; ounw := ounw s; ofin := ofin s; opay := opay s; oto := oto s; odl := odl s; opdl := opdl s; ocall := ocall s; oalld := oalld s; ob := ob s; ocur := ocur s; oev := oev s; ojres := ojres s; fi := fi s; ostash := ostash s; owk := owk s; now := now s; nexta := v; nexte := nexte s; tops := tops s; bots := bots s; botd := botd s; sent := sent s; byield := byield s; epush := epush s; epop := epop s; ernd := ernd s; dpush := dpush s; dpop := dpop s; olast := olast s; rer := rer s; rerp := rerp s; oleft := oleft s |}.
+Definition set_nexte (s : st) (v : nat) : st := {| evq := evq s; cnt := cnt s; towake := towake s; sel := sel s; total := total s; ispan := ispan s; pc := pc s; cbit := cbit s; inl := inl s; kern := kern s; ares := ares s; jst := jst s; aw := aw s; acur := acur s; kpc := kpc s; earm := earm s; kw := kw s; tok := tok s; nextb := nextb s; opc := opc s; oco := oco s; ocbit := ocbit s; odis := odis s; ounw := ounw s; ofin := ofin s; opay := opay s; oto := oto s; odl := odl s; opdl := opdl s; ocall := ocall s; oalld := oalld s; ob := ob s; ocur := ocur s; oev := oev s; ojres := ojres s; fi := fi s; ostash := ostash s; owk := owk s; now := now s; nexta := nexta s; nexte := v; tops := tops s; bots := bots s; botd := botd s; sent := sent s; byield := byield s; epush := epush s; epop := epop s; ernd := ernd s; dpush := dpush s; dpop := dpop s; olast := olast s; rer := rer s; rerp := rerp s; oleft := oleft s |}.
+Definition set_tops (s : st) (v : nat -> nat) : st := {| evq := evq s; cnt := cnt s; towake := towake s; sel := sel s; total := total s; ispan := ispan s; pc := pc s; cbit := cbit s; inl := inl s; kern := kern s; ares := ares s; jst := jst s; aw := aw s; acur := acur s; kpc := kpc s; earm := earm s; kw := kw s; tok := tok s; nextb := nextb s; opc := opc s; oco := oco s; ocbit := ocbit s; odis := odis s; ounw := ounw s; ofin := ofin s; opay := opay s; oto := oto s; odl := odl s; opdl := opdl s; ocall := ocall s; oalld := oalld s; ob := ob s; ocur := ocur s; oev := oev s; ojres := ojres s; fi := fi s; ostash := ostash s; owk := owk s; now := now s; nexta := nexta s; nexte := nexte s; tops := v; bots := bots s; botd := botd s; sent := sent s; byield := byield s; epush := epush s; epop := epop s; ernd := ernd s; dpush := dpush s; dpop := dpop s; olast := olast s; rer := rer s; rerp := rerp s; oleft := oleft s |}.
+Definition set_bots (s : st) (v : nat -> nat) : st := {| evq := evq s; cnt := cnt s; towake := towake s; sel := sel s; total := total s; ispan := ispan s; pc := pc s; cbit := cbit s; inl := inl s; kern := kern s; ares := ares s; jst := jst s; aw := aw s; acur := acur s; kpc := kpc s; earm := earm s; kw := kw s; tok := tok s; nextb := nextb s; opc := opc s; oco := oco s; ocbit := ocbit s; odis := odis s; ounw := ounw s; ofin := ofin s; opay := opay s; oto := oto s; odl := odl s; opdl := opdl s; ocall := ocall s; oalld := oalld s; ob := ob s; ocur := ocur s; oev := oev s; ojres := ojres s; fi := fi s; ostash := ostash s; owk := owk s; now := now s; nexta := nexta s; nexte := nexte s; tops := tops s; bots := v; botd := botd s; sent := sent s; byield := byield s; epush := epush s; epop := epop s; ernd := ernd s; dpush := dpush s; dpop := dpop s; olast := olast s; rer := rer s; rerp := rerp s; oleft := oleft s |}.
+Definition set_botd (s : st) (v : nat -> nat) : st := {| evq := evq s; cnt := cnt s; towake := towake s; sel := sel s; total := total s; ispan := ispan s; pc := pc s; cbit := cbit s; inl := inl s; kern := kern s; ares := ares s; jst := jst s; aw := aw s; acur := acur s; kpc := kpc s; earm := earm s; kw := kw s; tok := tok s; nextb := nextb s; opc := opc s; oco := oco s; ocbit := ocbit s; odis := odis s; ounw := ounw s; ofin := ofin s; opay := opay s; oto := oto s; odl := odl s; opdl := opdl s; ocall := ocall s; oalld := oalld s; ob := ob s; ocur := ocur s; oev := oev s; ojres := ojres s; fi := fi s; ostash := ostash s; owk := owk s; now := now s; nexta := nexta s; nexte := nexte s; tops := tops s; bots := bots s; botd := v; sent := sent s; byield := byield s; epush := epush s; epop := epop s; ernd := ernd s; dpush := dpush s; dpop := dpop s; olast := olast s; rer := rer s; rerp := rerp s; oleft := oleft s |}.
+Definition set_sent (s : st) (v : nat -> nat) : st := {| evq := evq s; cnt := cnt s; towake := towake s; sel := sel s; total := total s; ispan := ispan s; pc := pc s; cbit := cbit s; inl := inl s; kern := kern s; ares := ares s; jst := jst s; aw := aw s; acur := acur s; kpc := kpc s; earm := earm s; kw := kw s; tok := tok s; nextb := nextb s; opc := opc s; oco := oco s; ocbit := ocbit s; odis := odis s; ounw := ounw s; ofin := ofin s; opay := opay s; oto := oto s; odl := odl s; opdl := opdl s; ocall := ocall s; oalld := oalld s; ob := ob s; ocur := ocur s; oev := oev s; ojres := ojres s; fi := fi s; ostash := ostash s; owk := owk s; now := now s; nexta := nexta s; nexte := nexte s; tops := tops s; bots := bots s; botd := botd s; sent := v; byield := byield s; epush := epush s; epop := epop s; ernd := ernd s; dpush := dpush s; dpop := dpop s; olast := olast s; rer := rer s; rerp := rerp s; oleft := oleft s |}.
+Definition set_byield (s : st) (v : nat -> bool) : st := {| evq := evq s; cnt := cnt s; towake := towake s; sel := sel s; total := total s; ispan := ispan s; pc := pc s; cbit := cbit s; inl := inl s; kern := kern s; ares := ares s; jst := jst s; aw := aw s; acur := acur s; kpc := kpc s; earm := earm s; kw := kw s; tok := tok s; nextb := nextb s; opc := opc s; oco := oco s; ocbit := ocbit s; odis := odis s; ounw := ounw s; ofin := ofin s; opay := opay s; oto := oto s; odl := odl s; opdl := opdl s; ocall := ocall s; oalld := oalld s; ob := ob s; ocur := ocur s; oev := oev s; ojres := ojres s; fi := fi s; ostash := ostash s; owk := owk s; now := now s; nexta := nexta s; nexte := nexte s; tops := tops s; bots := bots s; botd := botd s; sent := sent s; byield := v; epush := epush s; epop := epop s; ernd := ernd s; dpush := dpush s; dpop := dpop s; olast := olast s; rer := rer s; rerp := rerp s; oleft := oleft s |}.
+Definition set_epush (s : st) (v : nat -> nat) : st := {| evq := evq s; cnt := cnt s; towake := towake s; sel := sel s; total := total s; ispan := ispan s; pc := pc s; cbit := cbit s; inl := inl s; kern := kern s; ares := ares s; jst := jst s; aw := aw s; acur := acur s; kpc := kpc s; earm := earm s; kw := kw s; tok := tok s; nextb := nextb s; opc := opc s; oco := oco s; ocbit := ocbit s; odis := odis s; ounw := ounw s; ofin := ofin s; opay := opay s; oto := oto s; odl := odl s; opdl := opdl s; ocall := ocall s; oalld := oalld s; ob := ob s; ocur := ocur s; oev := oev s; ojres := ojres s; fi := fi s; ostash := ostash s; owk := owk s; now := now s; nexta := nexta s; nexte := nexte s; tops := tops s; bots := bots s; botd := botd s; sent := sent s; byield := byield s; epush := v; epop := epop s; ernd := ernd s; dpush := dpush s; dpop := dpop s; olast := olast s; rer := rer s; rerp := rerp s; oleft := oleft s |}.
+Definition set_epop (s : st) (v : nat -> nat) : st := {| evq := evq s; cnt := cnt s; towake := towake s; sel := sel s; total := total s; ispan := ispan s; pc := pc s; cbit := cbit s; inl := inl s; kern := kern s; ares := ares s; jst := jst s; aw := aw s; acur := acur s; kpc := kpc s; earm := earm s; kw := kw s; tok := tok s; nextb := nextb s; opc := opc s; oco := oco s; ocbit := ocbit s; odis := odis s; ounw := ounw s; ofin := ofin s; opay := opay s; oto := oto s; odl := odl s; opdl := opdl s; ocall := ocall s; oalld := oalld s; ob := ob s; ocur := ocur s; oev := oev s; ojres := ojres s; fi := fi s; ostash := ostash s; owk := owk s; now := now s; nexta := nexta s; nexte := nexte s; tops := tops s; bots := bots s; botd := botd s; sent := sent s; byield := byield s; epush := epush s; epop := v; ernd := ernd s; dpush := dpush s; dpop := dpop s; olast := olast s; rer := rer s; rerp := rerp s; oleft := oleft s |}.
+Definition set_ernd (s : st) (v : nat -> nat) : st := {| evq := evq s; cnt := cnt s; towake := towake s; sel := sel s; total := total s; ispan := ispan s; pc := pc s; cbit := cbit s; inl := inl s; kern := kern s; ares := ares s; jst := jst s; aw := aw s; acur := acur s; kpc := kpc s; earm := earm s; kw := kw s; tok := tok s; nextb := nextb s; opc := opc s; oco := oco s; ocbit := ocbit s; odis := odis s; ounw := ounw s; ofin := ofin s; opay := opay s; oto := oto s; odl := odl s; opdl := opdl s; ocall := ocall s; oalld := oalld s; ob := ob s; ocur := ocur s; oev := oev s; ojres := ojres s; fi := fi s; ostash := ostash s; owk := owk s; now := now s; nexta := nexta s; nexte := nexte s; tops := tops s; bots := bots s; botd := botd s; sent := sent s; byield := byield s; epush := epush s; epop := epop s; ernd := v; dpush := dpush s; dpop := dpop s; olast := olast s; rer := rer s; rerp := rerp s; oleft := oleft s |}.
+Definition set_dpush (s : st) (v : nat -> nat) : st := {| evq := evq s; cnt := cnt s; towake := towake s; sel := sel s; total := total s; ispan := ispan s; pc := pc s; cbit := cbit s; inl := inl s; kern := kern s; ares := ares s; jst := jst s; aw := aw s; acur := acur s; kpc := kpc s; earm := earm s; kw := kw s; tok := tok s; nextb := nextb s; opc := opc s; oco := oco s; ocbit := ocbit s; odis := odis s; ounw := ounw s; ofin := ofin s; opay := opay s; oto := oto s; odl := odl s; opdl := opdl s; ocall := ocall s; oalld := oalld s; ob := ob s; ocur := ocur s; oev := oev s; ojres := ojres s; fi := fi s; ostash := ostash s; owk := owk s; now := now s; nexta := nexta s; nexte := nexte s; tops := tops s; bots := bots s; botd := botd s; sent := sent s; byield := byield s; epush := epush s; epop := epop s; ernd := ernd s; dpush := v; dpop := dpop s; olast := olast s; rer := rer s; rerp := rerp s; oleft := oleft s |}.
+Definition set_dpop (s : st) (v : nat -> nat) : st := {| evq := evq s; cnt := cnt s; towake := towake s; sel := sel s; total := total s; ispan := ispan s; pc := pc s; cbit := cbit s; inl := inl s; kern := kern s; ares := ares s; jst := jst s; aw := aw s; acur := acur s; kpc := kpc s; earm := earm s; kw := kw s; tok := tok s; nextb := nextb s; opc := opc s; oco := oco s; ocbit := ocbit s; odis := odis s; ounw := ounw s; ofin := ofin s; opay := opay s; oto := oto s; odl := odl s; opdl := opdl s; ocall := ocall s; oalld := oalld s; ob := ob s; ocur := ocur s; oev := oev s; ojres := ojres s; fi := fi s; ostash := ostash s; owk := owk s; now := now s; nexta := nexta s; nexte := nexte s; tops := tops s; bots := bots s; botd := botd s; sent := sent s; byield := byield s; epush := epush s; epop := epop s; ernd := ernd s; dpush := dpush s; dpop := v; olast := olast s; rer := rer s; rerp := rerp s; oleft := oleft s |}.
+Definition set_olast (s : st) (v : lastret) : st := {| evq := evq s; cnt := cnt s; towake := towake s; sel := sel s; total := total s; ispan := ispan s; pc := pc s; cbit := cbit s; inl := inl s; kern := kern s; ares := ares s; jst := jst s; aw := aw s; acur := acur s; kpc := kpc s; earm := earm s; kw := kw s; tok := tok s; nextb := nextb s; opc := opc s; oco := oco s; ocbit := ocbit s; odis := odis s; ounw := ounw s; ofin := ofin s; opay := opay s; oto := oto s; odl := odl s; opdl := opdl s; ocall := ocall s; oalld := oalld s; ob := ob s; ocur := ocur s; oev := oev s; ojres := ojres s; fi := fi s; ostash := ostash s; owk := owk s; now := now s; nexta := nexta s; nexte := nexte s; tops := tops s; bots := bots s; botd := botd s; sent := sent s; byield := byield s; epush := epush s; epop := epop s; ernd := ernd s; dpush := dpush s; dpop := dpop s; olast := v; rer := rer s; rerp := rerp s; oleft := oleft s |}.
+Definition set_rer (s : st) (v : nat) : st := {| evq := evq s; cnt := cnt s; towake := towake s; sel := sel s; total := total s; ispan := ispan s; pc := pc s; cbit := cbit s; inl := inl s; kern := kern s; ares := ares s; jst := jst s; aw := aw s; acur := acur s; kpc := kpc s; earm := earm s; kw := kw s; tok := tok s; nextb := nextb s; opc := opc s; oco := oco s; ocbit := ocbit s; odis := odis s; ounw := ounw s; ofin := ofin s; opay := opay s; oto := oto s; odl := odl s; opdl := opdl s; ocall := ocall s; oalld := oalld s; ob := ob s; ocur := ocur s; oev := oev s; ojres := ojres s; fi := fi s; ostash := ostash s; owk := owk s; now := now s; nexta := nexta s; nexte := nexte s; tops := tops s; bots := bots s; botd := botd s; sent := sent s; byield := byield s; epush := epush s; epop := epop s; ernd := ernd s; dpush := dpush s; dpop := dpop s; olast := olast s; rer := v; rerp := rerp s; oleft := oleft s |}.
+Definition set_rerp (s : st) (v : option nat) : st := {| evq := evq s; cnt := cnt s; towake := towake s; sel := sel s; total := total s; ispan := ispan s; pc := pc s; cbit := cbit s; inl := inl s; kern := kern s; ares := ares s; jst := jst s; aw := aw s; acur := acur s; kpc := kpc s; earm := earm s; kw := kw s; tok := tok s; nextb := nextb s; opc := opc s; oco := oco s; ocbit := ocbit s; odis := odis s; ounw := ounw s; ofin := ofin s; opay := opay s; oto := oto s; odl := odl s; opdl := opdl s; ocall := ocall s; oalld := oalld s; ob := ob s; ocur := ocur s; oev := oev s; ojres := ojres s; fi := fi s; ostash := ostash s; owk := owk s; now := now s; nexta := nexta s; nexte := nexte s; tops := tops s; bots := bots s; botd := botd s; sent := sent s; byield := byield s; epush := epush s; epop := epop s; ernd := ernd s; dpush := dpush s; dpop := dpop s; olast := olast s; rer := rer s; rerp := v; oleft := oleft s |}.
+Definition set_oleft (s : st) (v : bool) : st := {| evq := evq s; cnt := cnt s; towake := towake s; sel := sel s; total := total s; ispan := ispan s; pc := pc s; cbit := cbit s; inl := inl s; kern := kern s; ares := ares s; jst := jst s; aw := aw s; acur := acur s; kpc := kpc s; earm := earm s; kw := kw s; tok := tok s; nextb := nextb s; opc := opc s; oco := oco s; ocbit := ocbit s; odis := odis s; ounw := ounw s; ofin := ofin s; opay := opay s; oto := oto s; odl := odl s; opdl := opdl s; ocall := ocall s; oalld := oalld s; ob := ob s; ocur := ocur s; oev := oev s; ojres := ojres s; fi := fi s; ostash := ostash s; owk := owk s; now := now s; nexta := nexta s; nexte := nexte s; tops := tops s; bots := bots s; botd := botd s; sent := sent s; byield := byield s; epush := epush s; epop := epop s; ernd := ernd s; dpush := dpush s; dpop := dpop s; olast := olast s; rer := rer s; rerp := rerp s; oleft := v |}.
 
 Definition upd {X} (f : nat -> X) i v := fun j => if Nat.eqb j i then v else f j.
 
@@ -190,6 +193,7 @@ Inductive action :=
   | KStep (e : nat).
 
 Definition is_onone (p : opcT) : bool := match p with ONone => true | _ => false end.
+Definition is_p5w (p : opcT) : bool := match p with P5w => true | _ => false end.
 Definition cancel_due (s : st) : bool := oco s && ocbit s && Nat.eqb (odis s) 0.
 Definition zle_opt (d : option Z) (n : Z) : bool := match d with Some t => Z.leb t n | None => false end.
 Definition zadd_opt (n : Z) (d : option Z) : option Z := match d with Some t => Some (n + t)%Z | None => None end.
@@ -272,8 +276,8 @@ Definition ostep (s : st) : option st :=
   | P5 => if tok s (ob s) then Some (set_opc (set_tok s (upd (tok s) (ob s) false)) P6)
           else if cancel_due s then Some (raise_poll s UCancel)
           else Some (set_opc (set_opdl s (zadd_opt (now s) (oto s))) P5w)
-  | P5w => if tok s (ob s) || zle_opt (opdl s) (now s) || cancel_due s
-           then let s := set_tok s (upd (tok s) (ob s) false) in
+  | P5w => if tok s (ob s) || zle_opt (opdl s) (now s) || cancel_due s || owk s
+           then let s := set_owk (set_tok s (upd (tok s) (ob s) false)) false in
                 if cancel_due s then Some (raise_poll s UCancel) else Some (set_opc s P6)
            else None
   | P6 => if zle_opt (odl s) (now s) then Some (ret_timeout s) else Some (set_opc s P1)
@@ -352,7 +356,9 @@ Definition step (s : st) (ac : action) : option st :=
   match ac with
   | Start co => match opc s with ONone => Some (set_opc (set_oco s co) OBody) | _ => None end
   | Tick t => if Z.leb (now s) t then Some (set_now s t) else None
-  | CancelOwner => if oco s && negb (is_onone (opc s)) then Some (set_ocbit s true) else None
+  | CancelOwner => (* Coroutine::cancel: sets the bit and takes a coroutine that is suspended in a park, whatever its disable count *)
+                   if oco s && negb (is_onone (opc s))
+                   then Some (set_owk (set_ocbit s true) (owk s || is_p5w (opc s))) else None
   | OAdd => match opc s with
             | OBody => let n := nexta s in Some (set_opc (set_nexta (wpc s n ATop) (S n)) OA2)
             | _ => None end
@@ -397,7 +403,7 @@ Definition init : st :=
      tok := fun _ => false; nextb := 0;
      opc := ONone; oco := false; ocbit := false; odis := 0; ounw := UNone; ofin := 0; opay := UNone;
      oto := None; odl := None; opdl := None; ocall := 0%Z; oalld := false; ob := 0; ocur := 0; oev := 0;
-     ojres := RRun; fi := 0; ostash := EDone 0;
+     ojres := RRun; fi := 0; ostash := EDone 0; owk := false;
      now := 0%Z; nexta := 0; nexte := 0;
      tops := fun _ => 0; bots := fun _ => 0; botd := fun _ => 0; sent := fun _ => 0; byield := fun _ => false;
      epush := fun _ => 0; epop := fun _ => 0; ernd := fun _ => 0; dpush := fun _ => 0; dpop := fun _ => 0;
